@@ -142,10 +142,140 @@ Proof.
     + intros q Hq. rewrite I2 by assumption. apply (apply_op_prot prot); assumption.
 Qed.
 
+(* ------------------------------------------------------------------ symbolic links only ever disappear *)
+
+Definition lsub (s0 s : fs) : Prop := forall p q, s p = Lnk q -> s0 p = Lnk q.
+
+Lemma lsub_refl : forall s, lsub s s.
+Proof. intros s p q H. exact H. Qed.
+
+Lemma lsub_apply : forall s0 s o, lsub s0 s -> lsub s0 (apply_op s o).
+Proof.
+  intros s0 s o H. destruct o; cbn [apply_op]; try exact H; intros a q E; unfold upd in E;
+    destruct (path_eqb a p) eqn:X; try (apply H; exact E); try discriminate E.
+  - apply path_eqb_eq in X. subst a. destruct (s p) eqn:Y; cbn [append_bytes] in E; try discriminate E.
+    apply H. rewrite Y. exact E.
+  - apply path_eqb_eq in X. subst a. destruct (s p) eqn:Y; cbn [close_node] in E; try discriminate E.
+    apply H. rewrite Y. exact E.
+Qed.
+
+Lemma lsub_run : forall s0 ops s, lsub s0 s -> lsub s0 (run ops s).
+Proof.
+  intros s0. induction ops as [|o tl IH]; intros s H; [exact H|].
+  rewrite run_cons. apply IH. apply lsub_apply. exact H.
+Qed.
+
+Lemma target_cases : forall s p, target s p = p \/ s p = Lnk (target s p).
+Proof. intros s p. unfold target. destruct (s p); auto. Qed.
+
+Lemma not_lnk_target : forall s p, is_lnk (s p) = false -> target s p = p.
+Proof. intros s p H. unfold target. destruct (s p); try reflexivity. discriminate H. Qed.
+
+Lemma not_lnk_look : forall s p, is_lnk (s p) = false -> look s p = s p.
+Proof. intros s p H. unfold look. destruct (s p); try reflexivity. discriminate H. Qed.
+
+(* ------------------------------------------------------------------ opening the destination *)
+
+Lemma creat_ops_spec : forall s v dst m c t,
+  creat_ops s v dst m = (c, t) ->
+  (c = [] /\ t = None) \/ (c = [OCreat (target s dst) m] /\ t = Some (target s dst)).
+Proof.
+  intros s v dst m c t H. unfold creat_ops in H.
+  destruct (v_creat_ok v && parent_ok s dst); [|inversion H; auto].
+  destruct (look s dst); inversion H; auto.
+Qed.
+
+Lemma open_dst_spec : forall ovw s v osrc p m oo ot,
+  open_dst ovw s v osrc p m = (oo, ot) ->
+  exists u c, oo = u ++ c /\ (u = [] \/ u = [OUnlinkDst p]) /\
+              ((c = [] /\ ot = None) \/
+               exists t, c = [OCreat t m] /\ ot = Some t /\ (t = p \/ s p = Lnk t)).
+Proof.
+  intros ovw s v osrc p m oo ot H. unfold open_dst in H.
+  destruct (match osrc with Some sp => same_file s sp p | None => false end).
+  { inversion H; subst. exists [], []. split; [reflexivity|]. split; [left; reflexivity|]. left. split; reflexivity. }
+  assert (Plain : forall c t, creat_ops s v p m = (c, t) ->
+            exists u c0, c = u ++ c0 /\ (u = [] \/ u = [OUnlinkDst p]) /\
+              ((c0 = [] /\ t = None) \/ exists t0, c0 = [OCreat t0 m] /\ t = Some t0 /\ (t0 = p \/ s p = Lnk t0))).
+  { intros c t Hc. exists [], c. split; [reflexivity|]. split; [left; reflexivity|].
+    destruct (creat_ops_spec _ _ _ _ _ _ Hc) as [[A B]|[A B]]; [left; split; assumption|].
+    right. exists (target s p). split; [exact A|]. split; [exact B|]. apply target_cases. }
+  destruct (look s p) eqn:El; try (apply Plain; exact H).
+  destruct ovw; [|inversion H; subst; exists [], []; split; [reflexivity|]; split; [left; reflexivity|]; left; split; reflexivity].
+  destruct (v_ovw_unlink_ok v).
+  - destruct (creat_ops (run [OUnlinkDst p] s) v p m) as [c t] eqn:Hc. inversion H; subst.
+    exists [OUnlinkDst p], c. split; [reflexivity|]. split; [right; reflexivity|].
+    destruct (creat_ops_spec _ _ _ _ _ _ Hc) as [[A B]|[A B]]; [left; split; assumption|].
+    right. assert (T : target (run [OUnlinkDst p] s) p = p).
+    { unfold target, run. cbn [fold_left apply_op]. rewrite upd_same. reflexivity. }
+    rewrite T in A, B. exists p. split; [exact A|]. split; [exact B|]. left. reflexivity.
+  - destruct (creat_ops (run [] s) v p m) as [c t] eqn:Hc. inversion H; subst.
+    unfold run in Hc. cbn [fold_left] in Hc. cbn [app]. apply Plain. exact Hc.
+Qed.
+
+Definition in_slot (s : fs) (p q : path) : Prop := q = p \/ s p = Lnk q.
+
+Lemma open_dst_mod : forall ovw s v osrc p m oo ot,
+  open_dst ovw s v osrc p m = (oo, ot) ->
+  Forall (fun o => forall q, modifies o = Some q -> in_slot s p q) oo /\
+  (forall t, ot = Some t -> in_slot s p t).
+Proof.
+  intros ovw s v osrc p m oo ot H.
+  destruct (open_dst_spec _ _ _ _ _ _ _ _ H) as [u [c [E [Hu Hc]]]]. subst oo. split.
+  - apply Forall_app. split.
+    + destruct Hu as [Hu|Hu]; subst u; [constructor|]. constructor; [|constructor].
+      intros q X. cbn [modifies] in X. inversion X. left. reflexivity.
+    + destruct Hc as [[Hc _]|[t [Hc [_ Ht]]]]; subst c; [constructor|]. constructor; [|constructor].
+      intros q X. cbn [modifies] in X. inversion X; subst q. exact Ht.
+  - intros t Et. destruct Hc as [[_ Hc]|[t0 [_ [Hc Ht]]]]; [congruence|].
+    rewrite Hc in Et. inversion Et; subst. exact Ht.
+Qed.
+
+Lemma open_dst_opened : forall ovw s v osrc p m oo t s',
+  open_dst ovw s v osrc p m = (oo, Some t) -> run oo s' t = Reg (mkFile [] false).
+Proof.
+  intros ovw s v osrc p m oo t s' H.
+  destruct (open_dst_spec _ _ _ _ _ _ _ _ H) as [u [c [E [Hu Hc]]]]. subst oo.
+  destruct Hc as [[_ Hc]|[t0 [Hc [Et _]]]]; [discriminate Hc|]. inversion Et; subst t0 c.
+  rewrite run_app. unfold run at 1. cbn [fold_left apply_op]. apply upd_same.
+Qed.
+
+Lemma open_dst_not_opened : forall ovw s v osrc p m oo,
+  open_dst ovw s v osrc p m = (oo, None) -> oo = [] \/ oo = [OUnlinkDst p].
+Proof.
+  intros ovw s v osrc p m oo H.
+  destruct (open_dst_spec _ _ _ _ _ _ _ _ H) as [u [c [E [Hu Hc]]]]. subst oo.
+  destruct Hc as [[Hc _]|[t0 [_ [Et _]]]]; [|discriminate Et]. subst c. rewrite app_nil_r. exact Hu.
+Qed.
+
+Lemma run_h_open_dst : forall ovw s v osrc p m oo ot h,
+  open_dst ovw s v osrc p m = (oo, ot) -> run_h oo h = h.
+Proof.
+  intros ovw s v osrc p m oo ot h H.
+  destruct (open_dst_spec _ _ _ _ _ _ _ _ H) as [u [c [E [Hu Hc]]]]. subst oo.
+  rewrite run_h_app.
+  assert (A : run_h u h = h) by (destruct Hu; subst u; reflexivity). rewrite A.
+  destruct Hc as [[Hc _]|[t0 [Hc _]]]; subst c; reflexivity.
+Qed.
+
 (* ------------------------------------------------------------------ what a segment may modify *)
 
-Definition seg_mod (rm : bool) (src : path) (d : dsel) (o : op) : Prop :=
-  forall p, modifies o = Some p -> (o = OUnlinkSrc src /\ rm = true) \/ dsel_path d = Some p.
+Definition dslots (s : fs) (d : dsel) (q : path) : Prop :=
+  match d with
+  | DShared p => q = p
+  | DOwn p => in_slot s p q
+  | _ => False
+  end.
+
+Definition seg_mod (rm : bool) (s : fs) (src : path) (d : dsel) (o : op) : Prop :=
+  forall p, modifies o = Some p -> (o = OUnlinkSrc src /\ rm = true /\ is_stdin src = false) \/ dslots s d p.
+
+Definition nomod (o : op) : Prop := modifies o = None.
+
+Lemma nomod_seg : forall rm s src d l, Forall nomod l -> Forall (seg_mod rm s src d) l.
+Proof.
+  intros rm s src d l H. eapply Forall_impl; [|exact H]. intros o Ho p E. unfold nomod in Ho. congruence.
+Qed.
 
 Lemma Forall_map_write : forall (P : op -> Prop) p chunks,
   (forall c, P (OWrite p c)) -> Forall P (map (OWrite p) chunks).
@@ -155,56 +285,90 @@ Lemma Forall_map_stdout : forall (P : op -> Prop) chunks,
   (forall c, P (OStdout c)) -> Forall P (map OStdout chunks).
 Proof. intros. apply Forall_forall. intros x Hx. apply in_map_iff in Hx. destruct Hx as [c [E _]]. subst. auto. Qed.
 
-Lemma open_dst_mod : forall ovw s osrc p m oo opened,
-  open_dst ovw s osrc p m = (oo, opened) ->
-  Forall (fun o => forall q, modifies o = Some q -> q = p) oo.
+(* the two shapes of the end of a segment *)
+Lemma tail_src_cases : forall i rm src v ok tl r,
+  tail_src i rm src v ok = (tl, r) ->
+  (tl = [OCloseSrc src; OClr; OUnlinkSrc src] /\ r = FOk /\ ok = true /\ rm = true /\ is_stdin src = false) \/
+  (Forall nomod tl /\ (r = FOk -> ok = true) /\ (forall h, run_h tl h = h \/ run_h tl h = None)).
 Proof.
-  intros ovw s osrc p m oo opened H. unfold open_dst in H.
-  destruct (match osrc with Some sp => path_eqb sp p | None => false end).
-  - inversion H; subst. constructor.
-  - destruct (s p); [|destruct ovw|]; inversion H; subst; repeat (first [apply Forall_cons | apply Forall_nil]);
-      intros q E; cbn [modifies] in E; congruence.
+  intros i rm src v ok tl r H. unfold tail_src in H.
+  destruct (i_mode i); destruct rm; destruct ok; destruct (is_stdin src); cbn [andb negb] in H;
+    try destruct (v_close_src_ok v); cbn [negb] in H; try destruct (v_rm_ok v);
+    inversion H; subst;
+    first [ left; repeat split; reflexivity
+          | right; split; [repeat constructor|split; [first [reflexivity | discriminate | (intros _; reflexivity)]|intros h; first [left; reflexivity | right; reflexivity]]] ].
 Qed.
 
-Lemma tail_src_mod : forall rm src ok d, Forall (seg_mod rm src d) (tail_src rm src ok).
+Lemma throw_ops_mod : forall p v n (P : op -> Prop),
+  P (OUnlinkDst p) -> P (OExit n) -> Forall P (throw_ops (Some p) v n).
 Proof.
-  intros rm src ok d. unfold tail_src. constructor.
-  - intros p E. discriminate.
-  - destruct rm; cbn [andb]; [destruct ok|]; repeat (first [apply Forall_cons | apply Forall_nil]);
-      intros p E; cbn [modifies] in E; try discriminate.
-    left. split; reflexivity.
+  intros p v n P H1 H2. unfold throw_ops. destruct (v_art_unlink_ok v); repeat constructor; assumption.
 Qed.
 
 Ltac inv_pair H := apply pair_equal_spec in H; destruct H as [? ?]; subst.
 
-Ltac solve_mod :=
-  repeat first
-    [ apply tail_src_mod
-    | apply Forall_app; split
-    | apply Forall_cons
-    | apply Forall_nil
-    | apply Forall_map_write; intros ? ? E; cbn [modifies] in E; inversion E; subst; right; reflexivity
-    | apply Forall_map_stdout; intros ? ? E; discriminate E
-    | (intros ? E; cbn [modifies] in E; first [discriminate E | inversion E; subst; right; reflexivity]) ].
+Lemma slot_seg : forall rm s src d o q, modifies o = Some q -> dslots s d q -> seg_mod rm s src d o.
+Proof. intros rm s src d o q E H p E'. rewrite E in E'. inversion E'; subst. right. exact H. Qed.
+
+Lemma nomod1_seg : forall rm s src d o, modifies o = None -> seg_mod rm s src d o.
+Proof. intros rm s src d o E p E'. congruence. Qed.
+
+Ltac fsplit := repeat first [apply Forall_app; split | apply Forall_cons | apply Forall_nil].
+
+Ltac segfin :=
+  first [ apply nomod1_seg; reflexivity
+        | eapply slot_seg; [reflexivity|first [assumption | cbn [dslots]; reflexivity]] ].
 
 Lemma file_ops_mod : forall i rm s src d v ops r,
-  file_ops i rm s src d v = (ops, r) -> Forall (seg_mod rm src d) ops.
+  file_ops i rm s src d v = (ops, r) -> Forall (seg_mod rm s src d) ops.
 Proof.
   intros i rm s src d v ops r H. unfold file_ops in H.
-  destruct (s src); try (inv_pair H; constructor).
+  destruct (src_gate i s src v); try (inv_pair H; apply Forall_nil).
   destruct (codec i d v) as [chunks out].
-  destruct d as [| |p|p].
-  - destruct out; inv_pair H; cbn [writes]; solve_mod.
-  - destruct out; inv_pair H; cbn [writes]; solve_mod.
-  - destruct out; inv_pair H; cbn [writes]; solve_mod.
-  - destruct (open_dst (ovw i) s (Some src) p true) as [oo opened] eqn:Eo.
-    pose proof (open_dst_mod _ _ _ _ _ _ _ Eo) as Hoo.
-    assert (Hoo' : Forall (seg_mod rm src (DOwn p)) oo).
-    { eapply Forall_impl; [|exact Hoo]. intros o Ho q E. right. cbn [dsel_path]. rewrite (Ho q E). reflexivity. }
-    destruct opened.
-    + destruct out; inv_pair H; solve_mod; try exact Hoo';
-        destruct (is_ret0 _ && v_close_ok v); solve_mod.
-    + inv_pair H. solve_mod. exact Hoo'.
+  assert (Hrd : Forall (seg_mod rm s src d) (if is_stdin src then [] else [OOpenRead src])).
+  { destruct (is_stdin src); fsplit. segfin. }
+  assert (Htl : forall ok tl r', tail_src i rm src v ok = (tl, r') -> Forall (seg_mod rm s src d) tl).
+  { intros ok tl r' Ht. destruct (tail_src_cases _ _ _ _ _ _ _ Ht) as [[E [_ [_ [Erm Est]]]]|[Hn _]].
+    - subst tl. fsplit; try segfin. intros p _. left. repeat split; assumption.
+    - apply nomod_seg. exact Hn. }
+  destruct d as [|cl|p|p].
+  - (* test *)
+    destruct out as [| |n]; try (destruct (tail_src i rm src v _) as [tl r'] eqn:Ht; inv_pair H);
+      try inv_pair H; cbn [writes]; fsplit; try exact Hrd; try (eapply Htl; exact Ht); try segfin.
+  - destruct out as [| |n]; try (destruct (tail_src i rm src v _) as [tl r'] eqn:Ht; inv_pair H);
+      try inv_pair H; cbn [writes]; fsplit; try exact Hrd; try (eapply Htl; exact Ht);
+      try (apply Forall_map_stdout; intros; segfin); try segfin.
+  - destruct out as [| |n]; try (destruct (tail_src i rm src v _) as [tl r'] eqn:Ht; inv_pair H);
+      try inv_pair H; cbn [writes]; fsplit; try exact Hrd; try (eapply Htl; exact Ht);
+      try (apply Forall_map_write; intros; segfin); try segfin.
+  - destruct (open_dst (ovw i) s v (Some src) p (negb (is_stdin src))) as [oo ot] eqn:Eo.
+    destruct (open_dst_mod _ _ _ _ _ _ _ _ Eo) as [Hoo Hot].
+    assert (Hoo' : Forall (seg_mod rm s src (DOwn p)) oo).
+    { eapply Forall_impl; [|exact Hoo]. intros o Ho q E. right. cbn [dslots]. apply Ho. exact E. }
+    assert (Hp : dslots s (DOwn p) p) by (cbn [dslots]; left; reflexivity).
+    destruct ot as [t|].
+    2:{ inv_pair H. fsplit; try exact Hrd; try exact Hoo'. segfin. }
+    assert (Ht : dslots s (DOwn p) t) by (cbn [dslots]; apply Hot; reflexivity).
+    assert (Hst : forall l : list op, Forall nomod l -> Forall (seg_mod rm s src (DOwn p)) l)
+      by (intros l Hl; apply nomod_seg; exact Hl).
+    destruct out as [| |n].
+    3:{ inv_pair H. fsplit; try exact Hrd; try exact Hoo'; try segfin.
+        - apply Forall_map_write. intros c. segfin.
+        - destruct (v_art_unlink_ok v); fsplit; segfin. }
+    + destruct (tail_src i rm src v (is_ret0 Ret0 && v_close_ok v)) as [tl r'] eqn:Htl'. inv_pair H.
+      fsplit; try exact Hrd; try exact Hoo'; try (eapply Htl; exact Htl'); try segfin.
+      * apply Forall_map_write. intros c. segfin.
+      * destruct (is_stdin src); fsplit; segfin.
+      * destruct (is_stdin src); fsplit; segfin.
+      * destruct (is_ret0 Ret0 && v_close_ok v); [apply Forall_nil|].
+        destruct (v_art_unlink_ok v); fsplit. segfin.
+    + destruct (tail_src i rm src v (is_ret0 Ret1 && v_close_ok v)) as [tl r'] eqn:Htl'. inv_pair H.
+      fsplit; try exact Hrd; try exact Hoo'; try (eapply Htl; exact Htl'); try segfin.
+      * apply Forall_map_write. intros c. segfin.
+      * destruct (is_stdin src); fsplit; segfin.
+      * destruct (is_stdin src); fsplit; segfin.
+      * destruct (is_ret0 Ret1 && v_close_ok v); [apply Forall_nil|].
+        destruct (v_art_unlink_ok v); fsplit. segfin.
 Qed.
 
 (* ------------------------------------------------------------------ one source with its own destination *)
@@ -220,56 +384,41 @@ Proof.
     + cbn [apply_op]. rewrite upd_same. rewrite H. reflexivity.
 Qed.
 
-Lemma open_dst_opened : forall ovw s osrc p m oo s',
-  open_dst ovw s osrc p m = (oo, true) -> run oo s' p = Reg (mkFile [] false).
+Definition safe2 rel org b0 od : fs -> option path -> Prop :=
+  fun s h => safe rel org b0 od s /\ safe rel org b0 od (unlinked h s).
+
+Definition holds (org : path) (b0 : data) (s : fs) : Prop := exists f, s org = Reg f /\ f_bytes f = b0.
+
+Lemma holds_local : forall org b0, local_to (eq org) (holds org b0).
 Proof.
-  intros ovw s osrc p m oo s' H. unfold open_dst in H.
-  destruct (match osrc with Some sp => path_eqb sp p | None => false end); [inversion H|].
-  destruct (s p); [|destruct ovw|]; inversion H; subst;
-    rewrite ?run_cons; unfold run; cbn [fold_left apply_op]; apply upd_same.
+  intros org b0 s s' H [f [H1 H2]]. exists f. split; [|exact H2]. rewrite (H org eq_refl). exact H1.
 Qed.
 
-Lemma open_dst_not_opened : forall ovw s osrc p m oo,
-  open_dst ovw s osrc p m = (oo, false) -> oo = [].
-Proof.
-  intros ovw s osrc p m oo H. unfold open_dst in H.
-  destruct (match osrc with Some sp => path_eqb sp p | None => false end); [inversion H; reflexivity|].
-  destruct (s p); [|destruct ovw|]; inversion H; reflexivity.
-Qed.
-
-Definition safe2 rel src b0 od : fs -> option path -> Prop :=
-  fun s h => safe rel src b0 od s /\ safe rel src b0 od (unlinked h s).
-
-Definition holds (src : path) (b0 : data) (s : fs) : Prop := exists f, s src = Reg f /\ f_bytes f = b0.
-
-Lemma holds_local : forall src b0, local_to (eq src) (holds src b0).
-Proof.
-  intros src b0 s s' H [f [H1 H2]]. exists f. split; [|exact H2]. rewrite (H src eq_refl). exact H1.
-Qed.
-
-Lemma holds_safe : forall rel src b0 od s, holds src b0 s -> safe rel src b0 od s.
+Lemma holds_safe : forall rel org b0 od s, holds org b0 s -> safe rel org b0 od s.
 Proof. intros. left. exact H. Qed.
 
-(* a list of operations none of which modifies src keeps src's data in place *)
-Lemma untouched_safe : forall rel src b0 od ops s h,
-  holds src b0 s -> h_unprot (eq src) h -> Forall (avoids (eq src)) ops ->
-  all_pref (safe2 rel src b0 od) ops s h /\ holds src b0 (run ops s) /\ h_unprot (eq src) (run_h ops h).
+(* a list of operations none of which modifies org keeps its data in place *)
+Lemma untouched_safe : forall rel org b0 od ops s h,
+  holds org b0 s -> h_unprot (eq org) h -> Forall (avoids (eq org)) ops ->
+  all_pref (safe2 rel org b0 od) ops s h /\ holds org b0 (run ops s) /\ h_unprot (eq org) (run_h ops h).
 Proof.
-  intros rel src b0 od ops s h H Hh Hav.
-  destruct (avoid_all_pref (eq src) (holds src b0) (holds_local src b0) ops s h H Hh Hav) as [A [B C]].
+  intros rel org b0 od ops s h H Hh Hav.
+  destruct (avoid_all_pref (eq org) (holds org b0) (holds_local org b0) ops s h H Hh Hav) as [A [B C]].
   split; [|split].
   - eapply all_pref_impl; [|exact A]. intros s1 h1 [X Y]. split; apply holds_safe; assumption.
-  - destruct H as [f [H1 H2]]. exists f. split; [|exact H2]. rewrite (B src eq_refl). exact H1.
+  - destruct H as [f [H1 H2]]. exists f. split; [|exact H2]. rewrite (B org eq_refl). exact H1.
   - exact C.
 Qed.
 
-Ltac solve_avoid src p Hne :=
+Ltac solve_av Hne :=
   repeat first
     [ apply Forall_app; split
     | apply Forall_cons
     | apply Forall_nil
     | apply Forall_map_write; intros ? ? E; cbn [modifies] in E; inversion E; subst; intro; apply Hne; congruence
     | apply Forall_map_stdout; intros ? ? E; discriminate E
+    | assumption
+    | match goal with |- Forall _ (if ?c then _ else _) => destruct c end
     | (intros ? E; cbn [modifies] in E; first [discriminate E | inversion E; subst; intro; apply Hne; congruence]) ].
 
 Lemma run_h_writes : forall p chunks h, run_h (map (OWrite p) chunks) h = h.
@@ -278,16 +427,42 @@ Proof. induction chunks; intros; cbn [map]; [reflexivity|]. rewrite run_h_cons. 
 Lemma run_h_stdout : forall chunks h, run_h (map OStdout chunks) h = h.
 Proof. induction chunks; intros; cbn [map]; [reflexivity|]. rewrite run_h_cons. cbn [apply_h]. apply IHchunks. Qed.
 
-Lemma run_h_open_dst : forall ovw s osrc p m oo opened h,
-  open_dst ovw s osrc p m = (oo, opened) -> run_h oo h = h.
-Proof.
-  intros ovw s osrc p m oo opened h H. unfold open_dst in H.
-  destruct (match osrc with Some sp => path_eqb sp p | None => false end); [inversion H; reflexivity|].
-  destruct (s p); [|destruct ovw|]; inversion H; reflexivity.
-Qed.
-
 Lemma run_h_nil : forall h, run_h [] h = h.
 Proof. reflexivity. Qed.
+
+Lemma nomod_avoids : forall (prot : path -> Prop) l, Forall nomod l -> Forall (avoids prot) l.
+Proof. intros prot l H. eapply Forall_impl; [|exact H]. intros o Ho q E. unfold nomod in Ho. congruence. Qed.
+
+(* operations that change neither the file system nor the handler register *)
+Definition quiet (o : op) : Prop := modifies o = None /\ o <> OClr.
+
+Lemma quiet_run : forall l s h, Forall quiet l -> run l s = s /\ run_h l h = h.
+Proof.
+  induction l as [|o tl IH]; intros s h H; [split; reflexivity|].
+  inversion H as [|? ? [Ho1 Ho2] Ht]; subst. rewrite run_cons, run_h_cons.
+  assert (A : apply_op s o = s) by (destruct o; cbn [modifies] in Ho1; try discriminate Ho1; reflexivity).
+  assert (B : apply_h h o = h) by (destruct o; cbn [modifies] in Ho1; try discriminate Ho1; try reflexivity; exfalso; apply Ho2; reflexivity).
+  rewrite A, B. apply IH. exact Ht.
+Qed.
+
+Lemma quiet_rd : forall src, Forall quiet (if is_stdin src then [] else [OOpenRead src]).
+Proof. intros src. destruct (is_stdin src); repeat constructor. discriminate. Qed.
+
+Lemma in_slot_plain : forall s p q, is_lnk (s p) = false -> in_slot s p q -> q = p.
+Proof. intros s p q H [E|E]; [exact E|]. rewrite E in H. discriminate H. Qed.
+
+Lemma throw_ops_h : forall p v n h, run_h (throw_ops (Some p) v n) h = h.
+Proof. intros. unfold throw_ops. destruct (v_art_unlink_ok v); reflexivity. Qed.
+
+Lemma run_h_if_quiet : forall (c : bool) o h, quiet o -> run_h (if c then [] else [o]) h = h.
+Proof.
+  intros c o h [H1 H2]. destruct c; [reflexivity|]. rewrite run_h_cons.
+  destruct o; cbn [modifies] in H1; try discriminate H1; try reflexivity. exfalso. apply H2. reflexivity.
+Qed.
+
+Lemma run_h_art : forall (c c2 : bool) p h,
+  run_h (if c then [] else if c2 then [OUnlinkDst p] else []) h = h.
+Proof. intros c c2 p h. destruct c; [reflexivity|]. destruct c2; reflexivity. Qed.
 
 Ltac simp_h Eo :=
   repeat first
@@ -295,82 +470,92 @@ Ltac simp_h Eo :=
     | rewrite run_h_cons
     | rewrite run_h_writes
     | rewrite run_h_stdout
-    | rewrite (run_h_open_dst _ _ _ _ _ _ _ _ Eo)
+    | rewrite (run_h_open_dst _ _ _ _ _ _ _ _ _ Eo)
     | rewrite run_h_nil
+    | rewrite run_h_art
+    | rewrite run_h_if_quiet by (split; [reflexivity|discriminate])
+    | rewrite throw_ops_h
     | progress cbn [apply_h] ].
 
 Lemma own_file_safe : forall rel i rm s src p v f ops r,
-  s src = Reg f -> src <> p -> verdict_sound rel i (f_bytes f) v ->
+  s src = Reg f -> src <> p -> is_lnk (s p) = false -> verdict_sound rel i (f_bytes f) v ->
   file_ops i rm s src (DOwn p) v = (ops, r) ->
   all_pref (safe2 rel src (f_bytes f) (Some p)) ops s None /\
   ((forall n, r <> FThrow n) -> run_h ops None = None).
 Proof.
-  intros rel i rm s src p v f ops r Hs Hne Hsound H.
+  intros rel i rm s src p v f ops r Hs Hne Hpl Hsound H.
   assert (Hhold : holds src (f_bytes f) s) by (exists f; split; [exact Hs|reflexivity]).
-  unfold file_ops in H. rewrite Hs in H.
+  unfold file_ops in H.
+  destruct (src_gate i s src v).
+  1,2: inv_pair H; split; [|intros _; reflexivity];
+       apply (untouched_safe rel src (f_bytes f) (Some p)); [exact Hhold|exact I|apply Forall_nil].
   destruct (codec i (DOwn p) v) as [chunks out] eqn:Ec.
-  destruct (open_dst (ovw i) s (Some src) p true) as [oo opened] eqn:Eo.
+  destruct (open_dst (ovw i) s v (Some src) p (negb (is_stdin src))) as [oo ot] eqn:Eo.
+  destruct (open_dst_mod _ _ _ _ _ _ _ _ Eo) as [Hoo0 Hot].
   assert (Hoo : Forall (avoids (eq src)) oo).
-  { eapply Forall_impl; [|exact (open_dst_mod _ _ _ _ _ _ _ Eo)].
-    intros o Ho q E X. apply Hne. rewrite X. apply Ho. exact E. }
-  destruct opened.
+  { eapply Forall_impl; [|exact Hoo0]. intros o Ho q E X. apply Hne. rewrite X.
+    apply (in_slot_plain s p q Hpl). apply Ho. exact E. }
+  pose proof (quiet_rd src) as Hrdq.
+  assert (Hrd : Forall (avoids (eq src)) (if is_stdin src then [] else [OOpenRead src])).
+  { destruct (is_stdin src); repeat constructor. intros q E. discriminate E. }
+  destruct ot as [t|].
   2:{ inv_pair H. split.
-      - apply (untouched_safe rel src (f_bytes f) (Some p)); [exact Hhold|exact I|].
-        solve_avoid src p Hne. exact Hoo.
+      - apply (untouched_safe rel src (f_bytes f) (Some p)); [exact Hhold|exact I|]. solve_av Hne.
       - intros _. simp_h Eo. reflexivity. }
+  assert (Et : t = p) by (apply (in_slot_plain s p t Hpl); apply Hot; reflexivity). subst t.
   destruct out as [| |n].
   3:{ inv_pair H. split.
       - apply (untouched_safe rel src (f_bytes f) (Some p)); [exact Hhold|exact I|].
-        solve_avoid src p Hne. exact Hoo.
+        unfold throw_ops. solve_av Hne.
       - intros X. exfalso. apply (X n). reflexivity. }
-  2:{ cbn [is_ret0 andb] in H. inv_pair H. split.
-      - apply (untouched_safe rel src (f_bytes f) (Some p)); [exact Hhold|exact I|].
-        unfold tail_src. rewrite andb_false_r. solve_avoid src p Hne. exact Hoo.
-      - intros _. unfold tail_src. rewrite andb_false_r. simp_h Eo. reflexivity. }
-  cbn [is_ret0 andb] in H.
-  destruct (v_close_ok v) eqn:Ecl.
-  2:{ inv_pair H. split.
-      - apply (untouched_safe rel src (f_bytes f) (Some p)); [exact Hhold|exact I|].
-        unfold tail_src. rewrite andb_false_r. solve_avoid src p Hne. exact Hoo.
-      - intros _. unfold tail_src. rewrite andb_false_r. simp_h Eo. reflexivity. }
-  destruct rm.
-  2:{ inv_pair H. split.
-      - apply (untouched_safe rel src (f_bytes f) (Some p)); [exact Hhold|exact I|].
-        unfold tail_src. cbn [andb]. solve_avoid src p Hne. exact Hoo.
-      - intros _. unfold tail_src. cbn [andb]. simp_h Eo. reflexivity. }
-  (* success with --rm: everything up to the final unlink leaves src alone *)
-  inv_pair H. unfold tail_src. cbn [andb].
-  set (A := (OOpenRead src :: oo ++ OReg p :: map (OWrite p) chunks) ++
-            [OClr; OSetStat p; OClose p; OUtime p] ++ [OCloseSrc src; OClr]).
-  assert (EA : (OOpenRead src :: oo ++ OReg p :: map (OWrite p) chunks) ++
-               [OClr; OSetStat p; OClose p; OUtime p] ++ [] ++ [OCloseSrc src; OClr; OUnlinkSrc src]
-               = A ++ [OUnlinkSrc src]).
-  { unfold A. cbn [app]. rewrite <- !app_assoc. cbn [app]. reflexivity. }
-  rewrite EA. clear EA.
-  assert (HA : Forall (avoids (eq src)) A).
-  { unfold A. solve_avoid src p Hne. exact Hoo. }
-  destruct (untouched_safe rel src (f_bytes f) (Some p) A s None Hhold I HA) as [P1 [P2 P3]].
-  assert (HhA : run_h A None = None).
-  { unfold A. simp_h Eo. reflexivity. }
-  assert (HpA : run A s p = Reg (mkFile (concat chunks) true)).
-  { unfold A. rewrite run_app.
-    assert (E1 : run (OOpenRead src :: oo ++ OReg p :: map (OWrite p) chunks) s p
-                 = Reg (mkFile ([] ++ concat chunks) false)).
-    { rewrite run_cons. cbn [apply_op]. rewrite run_app. rewrite run_cons. cbn [apply_op].
-      apply run_writes. apply (open_dst_opened _ _ _ _ _ _ _ Eo). }
-    revert E1. generalize (run (OOpenRead src :: oo ++ OReg p :: map (OWrite p) chunks) s). intros s1 E1.
-    unfold run. cbn [app fold_left apply_op]. rewrite upd_same. rewrite E1. reflexivity. }
-  split.
-  - apply all_pref_app. split; [exact P1|].
-    rewrite HhA. cbn [all_pref]. split; [|split; [|exact I]].
-    + pose proof (all_pref_end _ _ _ _ P1) as X. rewrite HhA in X. exact X.
-    + cbn [apply_op apply_h unlinked].
-      assert (S1 : safe rel src (f_bytes f) (Some p) (upd (run A s) src Absent)).
-      { right. exists p, (concat chunks). split; [reflexivity|]. split.
-        - rewrite upd_other by (intro X; apply Hne; congruence). exact HpA.
-        - apply (Hsound p chunks). exact Ec. }
-      split; exact S1.
-  - intros _. rewrite run_h_app, HhA. reflexivity.
+  - (* the codec reports success *)
+    destruct (tail_src i rm src v (is_ret0 Ret0 && v_close_ok v)) as [tl r'] eqn:Etl. inv_pair H.
+    destruct (tail_src_cases _ _ _ _ _ _ _ Etl) as [[E1 [E2 [E3 [E4 E5]]]]|[Hn [_ Hh]]].
+    + (* success with --rm: everything up to the final unlink leaves src alone *)
+      subst tl r. cbn [is_ret0 andb] in E3. rewrite E3. rewrite E5. cbn [is_ret0 andb]. cbv iota.
+      set (A := ([OOpenRead src] ++ oo ++ OReg p :: map (OWrite p) chunks) ++
+                OClr :: [OSetStat p] ++ OClose p :: [OUtime p] ++ [] ++ [OCloseSrc src; OClr]).
+      assert (EA : ([OOpenRead src] ++ oo ++ OReg p :: map (OWrite p) chunks) ++
+                   OClr :: [OSetStat p] ++ OClose p :: [OUtime p] ++ [] ++ [OCloseSrc src; OClr; OUnlinkSrc src]
+                   = A ++ [OUnlinkSrc src]).
+      { unfold A. cbn [app]. rewrite <- !app_assoc. cbn [app]. reflexivity. }
+      rewrite EA. clear EA.
+      assert (HA : Forall (avoids (eq src)) A).
+      { unfold A. solve_av Hne. }
+      destruct (untouched_safe rel src (f_bytes f) (Some p) A s None Hhold I HA) as [P1 [P2 P3]].
+      assert (HhA : run_h A None = None).
+      { unfold A. rewrite !run_h_app. cbn [app]. rewrite !run_h_cons. cbn [apply_h]. reflexivity. }
+      assert (HpA : run A s p = Reg (mkFile (concat chunks) true)).
+      { unfold A. rewrite run_app.
+        assert (X1 : run ([OOpenRead src] ++ oo ++ OReg p :: map (OWrite p) chunks) s p
+                     = Reg (mkFile ([] ++ concat chunks) false)).
+        { cbn [app]. rewrite run_cons. cbn [apply_op]. rewrite run_app. rewrite run_cons. cbn [apply_op].
+          apply (run_writes p chunks _ [] false). apply (open_dst_opened _ _ _ _ _ _ _ _ _ Eo). }
+        revert X1. generalize (run ([OOpenRead src] ++ oo ++ OReg p :: map (OWrite p) chunks) s). intros s1 X1.
+        unfold run. cbn [app fold_left apply_op]. rewrite upd_same. rewrite X1. reflexivity. }
+      split.
+      * apply all_pref_app. split; [exact P1|].
+        rewrite HhA. cbn [all_pref]. split; [|split; [|exact I]].
+        -- pose proof (all_pref_end _ _ _ _ P1) as X. rewrite HhA in X. exact X.
+        -- cbn [apply_op apply_h unlinked].
+           assert (S1 : safe rel src (f_bytes f) (Some p) (upd (run A s) src Absent)).
+           { right. exists p, (concat chunks). split; [reflexivity|]. split.
+             - rewrite upd_other by (intro X; apply Hne; congruence). exact HpA.
+             - apply (Hsound p chunks). exact Ec. }
+           split; exact S1.
+      * intros _. rewrite run_h_app, HhA. reflexivity.
+    + split.
+      * apply (untouched_safe rel src (f_bytes f) (Some p)); [exact Hhold|exact I|].
+        pose proof (nomod_avoids (eq src) tl Hn) as Htl. solve_av Hne.
+      * intros _. simp_h Eo. destruct (Hh None) as [X|X]; exact X.
+  - (* the codec reports failure *)
+    destruct (tail_src i rm src v (is_ret0 Ret1 && v_close_ok v)) as [tl r'] eqn:Etl. inv_pair H.
+    destruct (tail_src_cases _ _ _ _ _ _ _ Etl) as [[E1 [E2 [E3 [E4 E5]]]]|[Hn [_ Hh]]].
+    + cbn [is_ret0 andb] in E3. discriminate E3.
+    + split.
+      * apply (untouched_safe rel src (f_bytes f) (Some p)); [exact Hhold|exact I|].
+        pose proof (nomod_avoids (eq src) tl Hn) as Htl. solve_av Hne.
+      * intros _. simp_h Eo. destruct (Hh None) as [X|X]; exact X.
 Qed.
 
 (* ------------------------------------------------------------------ the handler register is clear between sources *)
@@ -379,67 +564,67 @@ Lemma file_ops_h_none : forall i rm s src d v ops r,
   file_ops i rm s src d v = (ops, r) -> (forall n, r <> FThrow n) -> run_h ops None = None.
 Proof.
   intros i rm s src d v ops r H Hr. unfold file_ops in H.
-  destruct (s src); try (inv_pair H; reflexivity).
+  destruct (src_gate i s src v); try (inv_pair H; reflexivity).
   destruct (codec i d v) as [chunks out].
-  assert (Ht : forall ok h, run_h (tail_src rm src ok) h = None \/ run_h (tail_src rm src ok) h = h).
-  { intros ok h. unfold tail_src. destruct (rm && ok); [left|right]; reflexivity. }
-  destruct d as [| |p|p].
-  - destruct out; inv_pair H; try (exfalso; eapply Hr; reflexivity); cbn [writes];
-      rewrite run_h_app; cbn [app]; rewrite run_h_cons; cbn [apply_h];
-      match goal with |- run_h (tail_src ?a ?b ?c) ?h = _ => destruct (Ht c h) as [X|X]; rewrite X; reflexivity end.
-  - destruct out; inv_pair H; try (exfalso; eapply Hr; reflexivity); cbn [writes];
-      rewrite run_h_app, run_h_cons; cbn [apply_h]; rewrite run_h_stdout;
-      match goal with |- run_h (tail_src ?a ?b ?c) ?h = _ => destruct (Ht c h) as [X|X]; rewrite X; reflexivity end.
-  - destruct out; inv_pair H; try (exfalso; eapply Hr; reflexivity); cbn [writes];
-      rewrite run_h_app, run_h_cons; cbn [apply_h]; rewrite run_h_writes;
-      match goal with |- run_h (tail_src ?a ?b ?c) ?h = _ => destruct (Ht c h) as [X|X]; rewrite X; reflexivity end.
-  - destruct (open_dst (ovw i) s (Some src) p true) as [oo opened] eqn:Eo.
-    destruct opened.
-    + destruct out; inv_pair H; try (exfalso; eapply Hr; reflexivity);
-        (destruct (is_ret0 _ && v_close_ok v));
-        simp_h Eo;
-        match goal with |- run_h (tail_src ?a ?b ?c) ?h = _ => destruct (Ht c h) as [X|X]; rewrite X; reflexivity end.
+  assert (Ht : forall ok tl r', tail_src i rm src v ok = (tl, r') -> run_h tl None = None).
+  { intros ok tl r' E. destruct (tail_src_cases _ _ _ _ _ _ _ E) as [[E1 _]|[_ [_ Hh]]].
+    - subst tl. reflexivity.
+    - destruct (Hh None) as [X|X]; exact X. }
+  destruct d as [|cl|p|p].
+  - destruct out as [| |n]; try (destruct (tail_src i rm src v _) as [tl r'] eqn:E; inv_pair H);
+      try (inv_pair H; exfalso; eapply Hr; reflexivity);
+      cbn [writes]; simp_h E; eapply Ht; exact E.
+  - destruct out as [| |n]; try (destruct (tail_src i rm src v _) as [tl r'] eqn:E; inv_pair H);
+      try (inv_pair H; exfalso; eapply Hr; reflexivity);
+      cbn [writes]; simp_h E; eapply Ht; exact E.
+  - destruct out as [| |n]; try (destruct (tail_src i rm src v _) as [tl r'] eqn:E; inv_pair H);
+      try (inv_pair H; exfalso; eapply Hr; reflexivity);
+      cbn [writes]; simp_h E; eapply Ht; exact E.
+  - destruct (open_dst (ovw i) s v (Some src) p (negb (is_stdin src))) as [oo ot] eqn:Eo.
+    destruct ot as [t|].
+    + destruct out as [| |n]; try (destruct (tail_src i rm src v _) as [tl r'] eqn:E; inv_pair H);
+        try (inv_pair H; exfalso; eapply Hr; reflexivity);
+        simp_h Eo; eapply Ht; exact E.
     + inv_pair H. simp_h Eo. reflexivity.
 Qed.
 
 (* ------------------------------------------------------------------ the loop over the sources *)
 
-Definition prot0 (src0 : path) (od : option path) : path -> Prop :=
-  fun q => q = src0 \/ od = Some q.
+Definition prot0 (org : path) (od : option path) : path -> Prop :=
+  fun q => q = org \/ od = Some q.
 
-Lemma safe_local : forall rel src0 b0 od, local_to (prot0 src0 od) (safe rel src0 b0 od).
+Lemma safe_local : forall rel org b0 od, local_to (prot0 org od) (safe rel org b0 od).
 Proof.
-  intros rel src0 b0 od s s' H [[f [H1 H2]]|[d [b [H1 [H2 H3]]]]].
-  - left. exists f. split; [|exact H2]. rewrite (H src0); [exact H1|left; reflexivity].
+  intros rel org b0 od s s' H [[f [H1 H2]]|[d [b [H1 [H2 H3]]]]].
+  - left. exists f. split; [|exact H2]. rewrite (H org); [exact H1|left; reflexivity].
   - right. exists d, b. split; [exact H1|]. split; [|exact H3]. rewrite (H d); [exact H2|right; exact H1].
 Qed.
 
-Definition seg_avoids i rm (vs : path -> verdict) (prot : path -> Prop) (src' : path) (d' : dsel) : Prop :=
-  forall s' ops r, file_ops i rm s' src' d' (vs src') = (ops, r) -> Forall (avoids prot) ops.
-
-Lemma loop_avoid_if : forall i rm dof vs (prot : path -> Prop) (Q : fs -> Prop),
+(* every segment avoids prot as long as Q holds at its start (s0: the state links are compared with) *)
+Lemma loop_avoid_if : forall i rm dof vs s0 (prot : path -> Prop) (Q : fs -> Prop),
   local_to prot Q ->
   forall srcs s err ops e,
   (forall src' d', In src' srcs -> dof src' = Some d' ->
-     forall s' ops r, Q s' -> file_ops i rm s' src' d' (vs src') = (ops, r) -> Forall (avoids prot) ops) ->
-  Q s ->
+     forall s' ops r, Q s' -> lsub s0 s' -> file_ops i rm s' src' d' (vs src') = (ops, r) -> Forall (avoids prot) ops) ->
+  Q s -> lsub s0 s ->
   loop i rm dof vs srcs s err = (ops, e) ->
   all_pref (fun s h => Q s /\ Q (unlinked h s)) ops s None /\
   (forall q, prot q -> run ops s q = s q) /\
   h_unprot prot (run_h ops None).
 Proof.
-  intros i rm dof vs prot Q Hloc. induction srcs as [|src tl IH]; intros s err ops e Hav HQ H; cbn [loop] in H.
+  intros i rm dof vs s0 prot Q Hloc. induction srcs as [|src tl IH]; intros s err ops e Hav HQ HL H; cbn [loop] in H.
   - inv_pair H. cbn [all_pref]. split; [|split; [reflexivity|exact I]]. repeat split; assumption.
   - destruct (dof src) as [d|] eqn:Ed.
-    2:{ eapply IH; [|exact HQ|exact H]. intros a b Ha Hb. apply Hav; [right; exact Ha|exact Hb]. }
+    2:{ eapply IH; [|exact HQ|exact HL|exact H]. intros a b Ha Hb. apply Hav; [right; exact Ha|exact Hb]. }
     destruct (file_ops i rm s src d (vs src)) as [ops1 r] eqn:Ef.
-    pose proof (Hav src d (or_introl eq_refl) Ed s ops1 r HQ Ef) as Hav1.
+    pose proof (Hav src d (or_introl eq_refl) Ed s ops1 r HQ HL Ef) as Hav1.
     destruct (avoid_all_pref prot Q Hloc ops1 s None HQ I Hav1) as [A1 [A2 A3]].
+    assert (Rest : forall b, loop i rm dof vs tl (run ops1 s) b = loop i rm dof vs tl (run ops1 s) b) by reflexivity.
     destruct r as [| |n].
     3:{ inv_pair H. split; [|split]; assumption. }
     + destruct (loop i rm dof vs tl (run ops1 s) (err || is_fail FOk)) as [ops2 e2] eqn:El.
       assert (HQ1 : Q (run ops1 s)) by (apply (all_pref_end _ _ _ _ A1)).
-      destruct (IH (run ops1 s) _ ops2 e2 (fun a b Ha => Hav a b (or_intror Ha)) HQ1 El) as [B1 [B2 B3]].
+      destruct (IH (run ops1 s) _ ops2 e2 (fun a b Ha => Hav a b (or_intror Ha)) HQ1 (lsub_run _ _ _ HL) El) as [B1 [B2 B3]].
       inv_pair H.
       split; [|split].
       * apply all_pref_app. split; [exact A1|].
@@ -448,7 +633,7 @@ Proof.
       * rewrite run_h_app. rewrite (file_ops_h_none _ _ _ _ _ _ _ _ Ef) by (intros n; discriminate). exact B3.
     + destruct (loop i rm dof vs tl (run ops1 s) (err || is_fail FFail)) as [ops2 e2] eqn:El.
       assert (HQ1 : Q (run ops1 s)) by (apply (all_pref_end _ _ _ _ A1)).
-      destruct (IH (run ops1 s) _ ops2 e2 (fun a b Ha => Hav a b (or_intror Ha)) HQ1 El) as [B1 [B2 B3]].
+      destruct (IH (run ops1 s) _ ops2 e2 (fun a b Ha => Hav a b (or_intror Ha)) HQ1 (lsub_run _ _ _ HL) El) as [B1 [B2 B3]].
       inv_pair H.
       split; [|split].
       * apply all_pref_app. split; [exact A1|].
@@ -457,63 +642,78 @@ Proof.
       * rewrite run_h_app. rewrite (file_ops_h_none _ _ _ _ _ _ _ _ Ef) by (intros n; discriminate). exact B3.
 Qed.
 
-Lemma loop_avoid : forall i rm dof vs (prot : path -> Prop) (Q : fs -> Prop),
-  local_to prot Q ->
-  forall srcs s err ops e,
-  (forall src' d', In src' srcs -> dof src' = Some d' -> seg_avoids i rm vs prot src' d') ->
-  Q s ->
-  loop i rm dof vs srcs s err = (ops, e) ->
-  all_pref (fun s h => Q s /\ Q (unlinked h s)) ops s None /\
-  (forall q, prot q -> run ops s q = s q) /\
-  h_unprot prot (run_h ops None).
+(* what a segment must satisfy to leave a set of keys alone *)
+Lemma seg_avoid_from_mod : forall i rm s' src' d' v ops r (prot : path -> Prop),
+  file_ops i rm s' src' d' v = (ops, r) ->
+  (rm = true -> is_stdin src' = false -> ~ prot src') ->
+  (forall q, dslots s' d' q -> ~ prot q) ->
+  Forall (avoids prot) ops.
 Proof.
-  intros i rm dof vs prot Q Hloc srcs s err ops e Hav HQ H.
-  apply (loop_avoid_if i rm dof vs prot Q Hloc srcs s err ops e); try assumption.
-  intros src' d' Hin Hd s' ops' r' _ Ef. exact (Hav src' d' Hin Hd s' ops' r' Ef).
+  intros i rm s' src' d' v ops r prot Ef H1 H2.
+  eapply Forall_impl; [|exact (file_ops_mod _ _ _ _ _ _ _ _ Ef)].
+  intros o Ho q E. destruct (Ho q E) as [[Eo [Erm Est]]|Hs].
+  - subst o. cbn [modifies] in E. inversion E; subst q. apply H1; assumption.
+  - apply H2. exact Hs.
 Qed.
 
-Lemma keeps_local : forall src0 od (f0 : file), local_to (prot0 src0 od) (fun s => s src0 = Reg f0).
-Proof. intros src0 od f0 s s' H H1. rewrite (H src0); [exact H1|left; reflexivity]. Qed.
+Lemma dslots_plain : forall s0 s' p q,
+  lsub s0 s' -> is_lnk (s0 p) = false -> dslots s' (DOwn p) q -> q = p.
+Proof.
+  intros s0 s' p q HL Hp [E|E]; [exact E|]. apply HL in E. rewrite E in Hp. discriminate Hp.
+Qed.
 
-Lemma loop_own : forall rel i rm dof vs src0 f0 p0,
-  src0 <> p0 -> dof src0 = Some (DOwn p0) -> verdict_sound rel i (f_bytes f0) (vs src0) ->
+Lemma keeps_local : forall org od (f0 : file), local_to (prot0 org od) (fun s => s org = Reg f0).
+Proof. intros org od f0 s s' H H1. rewrite (H org); [exact H1|left; reflexivity]. Qed.
+
+(* the tracked source src0 (a regular file, not a link) with its own destination p0 (not a link) *)
+Lemma loop_own : forall rel i rm dof vs s0 src0 f0 p0,
+  src0 <> p0 -> dof src0 = Some (DOwn p0) -> is_lnk (s0 p0) = false -> verdict_sound rel i (f_bytes f0) (vs src0) ->
   forall srcs s err ops e,
   NoDup srcs ->
   (forall src' d', In src' srcs -> src' <> src0 -> dof src' = Some d' ->
-                   seg_avoids i rm vs (prot0 src0 (Some p0)) src' d') ->
-  s src0 = Reg f0 ->
+     forall s' ops r, lsub s0 s' -> file_ops i rm s' src' d' (vs src') = (ops, r) ->
+                      Forall (avoids (prot0 src0 (Some p0))) ops) ->
+  s src0 = Reg f0 -> lsub s0 s ->
   loop i rm dof vs srcs s err = (ops, e) ->
   all_pref (safe2 rel src0 (f_bytes f0) (Some p0)) ops s None.
 Proof.
-  intros rel i rm dof vs src0 f0 p0 Hne Hd0 Hsound.
-  induction srcs as [|src tl IH]; intros s err ops e Hnd Hav Hs H; cbn [loop] in H.
+  intros rel i rm dof vs s0 src0 f0 p0 Hne Hd0 Hpl Hsound.
+  induction srcs as [|src tl IH]; intros s err ops e Hnd Hav Hs HL H; cbn [loop] in H.
   - inv_pair H. cbn [all_pref unlinked]. split; [|exact I].
     split; left; exists f0; split; auto.
   - inversion Hnd as [|? ? Hnotin Hnd']; subst.
     destruct (dof src) as [d|] eqn:Ed.
-    2:{ eapply IH; [exact Hnd'| |exact Hs|exact H]. intros a b Ha. apply Hav. right. exact Ha. }
+    2:{ eapply IH; [exact Hnd'| |exact Hs|exact HL|exact H]. intros a b Ha. apply Hav. right. exact Ha. }
     destruct (file_ops i rm s src d (vs src)) as [ops1 r] eqn:Ef.
     destruct (path_eq_dec src src0) as [E|E].
     + (* the tracked source itself *)
       subst src. rewrite Hd0 in Ed. inversion Ed; subst d.
-      destruct (own_file_safe rel i rm s src0 p0 (vs src0) f0 ops1 r Hs Hne Hsound Ef) as [A1 A2].
+      assert (Hpl' : is_lnk (s p0) = false).
+      { destruct (s p0) eqn:X; try reflexivity. apply HL in X. rewrite X in Hpl. discriminate Hpl. }
+      destruct (own_file_safe rel i rm s src0 p0 (vs src0) f0 ops1 r Hs Hne Hpl' Hsound Ef) as [A1 A2].
       assert (Htl : forall src' d', In src' tl -> dof src' = Some d' ->
-                                    seg_avoids i rm vs (prot0 src0 (Some p0)) src' d').
-      { intros a b Ha Hb. apply Hav; [right; exact Ha| |exact Hb]. intro X. subst. contradiction. }
+                forall s' ops r, safe rel src0 (f_bytes f0) (Some p0) s' -> lsub s0 s' ->
+                                 file_ops i rm s' src' d' (vs src') = (ops, r) ->
+                                 Forall (avoids (prot0 src0 (Some p0))) ops).
+      { intros a b Ha Hb s' ops' r' _ HL' Ef'.
+        assert (Na : a <> src0) by (intro X; subst; contradiction).
+        exact (Hav a b (or_intror Ha) Na Hb s' ops' r' HL' Ef'). }
       destruct r as [| |n].
       3:{ inv_pair H. exact A1. }
       * destruct (loop i rm dof vs tl (run ops1 s) (err || is_fail FOk)) as [ops2 e2] eqn:El.
         assert (HQ1 : safe rel src0 (f_bytes f0) (Some p0) (run ops1 s)) by (apply (all_pref_end _ _ _ _ A1)).
-        destruct (loop_avoid i rm dof vs _ _ (safe_local rel src0 (f_bytes f0) (Some p0)) tl _ _ _ _ Htl HQ1 El) as [B1 _].
+        destruct (loop_avoid_if i rm dof vs s0 _ _ (safe_local rel src0 (f_bytes f0) (Some p0)) tl _ _ _ _ Htl HQ1
+                                (lsub_run _ _ _ HL) El) as [B1 _].
         inv_pair H. apply all_pref_app. split; [exact A1|].
         rewrite A2 by (intros n; discriminate). exact B1.
       * destruct (loop i rm dof vs tl (run ops1 s) (err || is_fail FFail)) as [ops2 e2] eqn:El.
         assert (HQ1 : safe rel src0 (f_bytes f0) (Some p0) (run ops1 s)) by (apply (all_pref_end _ _ _ _ A1)).
-        destruct (loop_avoid i rm dof vs _ _ (safe_local rel src0 (f_bytes f0) (Some p0)) tl _ _ _ _ Htl HQ1 El) as [B1 _].
+        destruct (loop_avoid_if i rm dof vs s0 _ _ (safe_local rel src0 (f_bytes f0) (Some p0)) tl _ _ _ _ Htl HQ1
+                                (lsub_run _ _ _ HL) El) as [B1 _].
         inv_pair H. apply all_pref_app. split; [exact A1|].
         rewrite A2 by (intros n; discriminate). exact B1.
     + (* another source: it leaves src0 and p0 alone *)
-      pose proof (Hav src d (or_introl eq_refl) E Ed s ops1 r Ef) as Hav1.
+      pose proof (Hav src d (or_introl eq_refl) E Ed s ops1 r HL Ef) as Hav1.
       destruct (avoid_all_pref _ _ (keeps_local src0 (Some p0) f0) ops1 s None Hs I Hav1) as [A1 [A2 A3]].
       assert (A1' : all_pref (safe2 rel src0 (f_bytes f0) (Some p0)) ops1 s None).
       { eapply all_pref_impl; [|exact A1]. intros s1 h1 [X Y]. split; left; exists f0; split; auto. }
@@ -522,310 +722,481 @@ Proof.
       destruct r as [| |n].
       3:{ inv_pair H. exact A1'. }
       * destruct (loop i rm dof vs tl (run ops1 s) (err || is_fail FOk)) as [ops2 e2] eqn:El.
-        pose proof (IH _ _ _ _ Hnd' (fun a b Ha => Hav a b (or_intror Ha)) Hs1 El) as B1.
+        pose proof (IH _ _ _ _ Hnd' (fun a b Ha => Hav a b (or_intror Ha)) Hs1 (lsub_run _ _ _ HL) El) as B1.
         inv_pair H. apply all_pref_app. split; [exact A1'|].
         rewrite (file_ops_h_none _ _ _ _ _ _ _ _ Ef) by (intros n; discriminate). exact B1.
       * destruct (loop i rm dof vs tl (run ops1 s) (err || is_fail FFail)) as [ops2 e2] eqn:El.
-        pose proof (IH _ _ _ _ Hnd' (fun a b Ha => Hav a b (or_intror Ha)) Hs1 El) as B1.
+        pose proof (IH _ _ _ _ Hnd' (fun a b Ha => Hav a b (or_intror Ha)) Hs1 (lsub_run _ _ _ HL) El) as B1.
         inv_pair H. apply all_pref_app. split; [exact A1'|].
         rewrite (file_ops_h_none _ _ _ _ _ _ _ _ Ef) by (intros n; discriminate). exact B1.
 Qed.
 
 (* ------------------------------------------------------------------ modes *)
 
-Lemma concat_shared : forall i, is_concat i = true ->
-  exists p, i_out i = OutFile p /\ forall src, dsel_of i src = Some (DShared p).
+Lemma concat_shared : forall i names, is_concat i names = true ->
+  (exists p, eff_out i names = OutFile p /\ forall src, dsel_of i names src = Some (DShared p)) \/
+  (eff_out i names = OutStdout /\ forall src, dsel_of i names src = Some (DStdout false)).
 Proof.
-  intros i H. unfold is_concat, is_test in H. unfold dsel_of.
+  intros i names H. unfold is_concat, is_test in H. unfold dsel_of, single.
   destruct (i_mode i); cbn [negb andb] in H; try discriminate;
-    destruct (i_out i) as [| |p]; try discriminate;
-    exists p; (split; [reflexivity|]); intros src;
-    destruct (i_srcs i) as [|a [|b tl]]; try discriminate; reflexivity.
+    destruct (one_name names); cbn [negb andb] in H; try discriminate;
+    destruct (eff_out i names) as [| |p|d]; try discriminate;
+    first [ left; exists p; split; [reflexivity|]; intros src; reflexivity
+          | right; split; [reflexivity|]; intros src; reflexivity ].
 Qed.
 
-Lemma not_concat_not_shared : forall i src q, is_concat i = false -> dsel_of i src <> Some (DShared q).
+Lemma not_concat_not_shared : forall i names src q, is_concat i names = false -> dsel_of i names src <> Some (DShared q).
 Proof.
-  intros i src q H E. unfold is_concat, is_test in H. unfold dsel_of in E.
-  destruct (i_mode i); cbn [negb andb] in H; try discriminate;
-    destruct (i_out i) as [| |p]; try discriminate;
-    try (destruct (dstname _ src); discriminate);
-    destruct (i_srcs i) as [|a [|b tl]]; discriminate.
+  intros i names src q H E. unfold is_concat, is_test in H. unfold dsel_of, single in E.
+  destruct (i_mode i); cbn [negb andb] in H; try discriminate E;
+    destruct (eff_out i names) as [| |p|d]; try discriminate E;
+    try (destruct (is_stdin src); [discriminate E|destruct (dstname _ _ src); discriminate E]);
+    destruct (one_name names); cbn [negb andb] in *; discriminate.
 Qed.
 
-Lemma test_no_rm : forall i src, dsel_of i src = Some DTest -> eff_rm i = false.
+Lemma test_no_rm : forall i names src, dsel_of i names src = Some DTest -> eff_rm i names = false.
 Proof.
-  intros i src E. unfold dsel_of in E. unfold eff_rm, is_test.
+  intros i names src E. unfold dsel_of in E. unfold eff_rm, is_test.
   destruct (i_mode i); try (rewrite andb_false_r; reflexivity);
-    destruct (i_out i) as [| |p]; try discriminate;
-    try (destruct (dstname _ src); discriminate);
-    destruct (i_srcs i) as [|a [|b tl]]; discriminate.
+    destruct (eff_out i names) as [| |p|d]; try discriminate;
+    try (destruct (is_stdin src); [discriminate E|destruct (dstname _ _ src); discriminate E]);
+    destruct (single i names); discriminate.
 Qed.
 
-Lemma stdout_no_rm : forall i src, dsel_of i src = Some DStdout -> eff_rm i = false.
+Lemma stdout_no_rm : forall i names src c, dsel_of i names src = Some (DStdout c) ->
+  eff_rm i names = false \/ is_stdin src = true.
 Proof.
-  intros i src E. unfold dsel_of in E. unfold eff_rm, out_stdout.
+  intros i names src c E. unfold dsel_of in E. unfold eff_rm, out_stdout.
   destruct (i_mode i); try discriminate;
-    destruct (i_out i) as [| |p]; try (rewrite andb_false_r; reflexivity);
-    try (destruct (dstname _ src); discriminate);
-    destruct (i_srcs i) as [|a [|b tl]]; discriminate.
+    destruct (eff_out i names) as [| |p|d]; try (left; rewrite andb_false_r; reflexivity);
+    try (destruct (single i names); discriminate);
+    destruct (is_stdin src); try (right; reflexivity); destruct (dstname _ _ src); discriminate.
 Qed.
 
-Lemma dst_of_own : forall i src p, dst_of i src = Some p <-> dsel_of i src = Some (DOwn p).
+Lemma dst_of_own : forall i names src p, dst_of i names src = Some p <-> dsel_of i names src = Some (DOwn p).
 Proof.
-  intros i src p. unfold dst_of. destruct (dsel_of i src) as [[| |q|q]|]; split; intro H; try discriminate; congruence.
+  intros i names src p. unfold dst_of. destruct (dsel_of i names src) as [[|c|q|q]|]; split; intro H; try discriminate; congruence.
 Qed.
 
 (* ------------------------------------------------------------------ crash safety, whole run *)
 
-Lemma all_pref_exit : forall (P : fs -> option path -> Prop) e s h, P s h -> all_pref P (exit_of e) s h.
+Lemma holds_safe2 : forall rel org b0 od (s : fs) (h : option path),
+  holds org b0 s /\ holds org b0 (unlinked h s) -> safe2 rel org b0 od s h.
+Proof. intros rel org b0 od s h [X Y]. split; left; assumption. Qed.
+
+Lemma look_target : forall s p, look s p = s (target s p).
+Proof. intros s p. unfold look, target. destruct (s p) eqn:E; rewrite ?E; reflexivity. Qed.
+
+(* a list of operations none of which modifies anything *)
+Lemma nomod_tail_safe : forall rel org b0 od l s h,
+  holds org b0 s -> h_unprot (eq org) h -> Forall nomod l -> all_pref (safe2 rel org b0 od) l s h.
 Proof.
-  intros P e s h H. destruct e as [[|]|n]; cbn [exit_of all_pref apply_op apply_h]; tauto.
+  intros rel org b0 od l s h H Hh Hl.
+  apply (untouched_safe rel org b0 od l s h H Hh). apply nomod_avoids. exact Hl.
 Qed.
 
-Lemma holds_safe2 : forall rel src b0 od (s : fs) (h : option path),
-  holds src b0 s /\ holds src b0 (unlinked h s) -> safe2 rel src b0 od s h.
-Proof. intros rel src b0 od s h [X Y]. split; left; assumption. Qed.
+Lemma exit_of_nomod : forall e, Forall nomod (exit_of e).
+Proof. intros [[|]|n]; cbn [exit_of]; repeat constructor. Qed.
 
-(* every segment of a run in which src has no destination of its own leaves src alone *)
-Lemma segs_avoid_src : forall i vs src,
-  (forall a b d p, In a (i_srcs i) -> In b (i_srcs i) -> dsel_of i b = Some d -> dsel_path d = Some p -> a <> p) ->
-  In src (i_srcs i) -> dst_of i src = None -> is_concat i = false ->
-  forall src' d', In src' (i_srcs i) -> dsel_of i src' = Some d' -> seg_avoids i (eff_rm i) vs (eq src) src' d'.
+(* when nothing may modify the key org, the data stays where it is during the whole loop *)
+Lemma loop_untouched : forall rel i rm dof vs s0 org b0 od srcs s err ops e,
+  (forall src' d', In src' srcs -> dof src' = Some d' ->
+     forall s' ops r, lsub s0 s' -> file_ops i rm s' src' d' (vs src') = (ops, r) -> Forall (avoids (eq org)) ops) ->
+  holds org b0 s -> lsub s0 s ->
+  loop i rm dof vs srcs s err = (ops, e) ->
+  all_pref (safe2 rel org b0 od) ops s None /\ holds org b0 (run ops s) /\ h_unprot (eq org) (run_h ops None).
 Proof.
-  intros i vs src Hw2 Hin Hd Hc src' d' Hin' Ed' s' ops r Ef.
-  eapply Forall_impl; [|exact (file_ops_mod _ _ _ _ _ _ _ _ Ef)].
-  intros o Ho q E X. subst q. destruct (Ho src E) as [[Eo Erm]|Ep].
-  - (* OUnlinkSrc src' with src' = src *)
-    subst o. cbn [modifies] in E. inversion E; subst src'.
-    destruct d' as [| |p|p].
-    + rewrite (test_no_rm i src Ed') in Erm. discriminate.
-    + rewrite (stdout_no_rm i src Ed') in Erm. discriminate.
-    + exact (not_concat_not_shared i src p Hc Ed').
-    + unfold dst_of in Hd. rewrite Ed' in Hd. discriminate.
-  - exact (Hw2 src src' d' src Hin Hin' Ed' Ep eq_refl).
+  intros rel i rm dof vs s0 org b0 od srcs s err ops e Hav Hh HL El.
+  destruct (loop_avoid_if i rm dof vs s0 (eq org) (holds org b0) (holds_local _ _) srcs s err ops e
+              (fun a b Ha Hb s' o r _ L E => Hav a b Ha Hb s' o r L E) Hh HL El) as [Q1 [Q2 Q3]].
+  split; [|split].
+  - eapply all_pref_impl; [|exact Q1]. intros s1 h1 X. apply holds_safe2. exact X.
+  - apply (all_pref_end _ _ _ _ Q1).
+  - exact Q3.
 Qed.
 
-Theorem all_states_safe : forall rel i s0 vs, wf i ->
-  forall src f0, In src (i_srcs i) -> s0 src = Reg f0 -> verdict_sound rel i (f_bytes f0) (vs src) ->
-  all_pref (safe2 rel src (f_bytes f0) (dst_of i src)) (fio_ops i s0 vs) s0 None.
+Theorem all_states_safe_main : forall rel i names s0 vs, wf i names s0 ->
+  forall src f0, In src names -> look s0 src = Reg f0 -> verdict_sound rel i (f_bytes f0) (vs src) ->
+  all_pref (safe2 rel (target s0 src) (f_bytes f0) (dst_of i names src)) (fio_main i names s0 vs) s0 None.
 Proof.
-  intros rel i s0 vs [Hnd [Hw2 Hw3]] src f0 Hin Hs Hsound.
-  assert (Hhold : holds src (f_bytes f0) s0) by (exists f0; split; [exact Hs|reflexivity]).
-  unfold fio_ops. destruct (is_concat i) eqn:Ec.
-  - (* several sources into one -o destination *)
-    destruct (concat_shared i Ec) as [p [Eo Hsh]]. rewrite Eo.
-    assert (Hd : dst_of i src = None) by (unfold dst_of; rewrite Hsh; reflexivity). rewrite Hd.
-    assert (Hp : src <> p) by (apply (Hw2 src src (DShared p) p Hin Hin (Hsh src)); reflexivity).
-    destruct (ovw i) eqn:Eovw.
-    2:{ apply (untouched_safe rel src (f_bytes f0) None); [exact Hhold|exact I|].
-        repeat constructor. intros q E; discriminate E. }
-    destruct (open_dst true s0 None p false) as [oo opened] eqn:Eop.
-    destruct opened.
-    2:{ destruct (i_mode i); apply (untouched_safe rel src (f_bytes f0) None); try exact Hhold; try exact I;
-          repeat constructor; intros q E; discriminate E. }
-    destruct (loop i false (dsel_of i) vs (i_srcs i) (run oo s0) false) as [ops e] eqn:El.
-    assert (Hoo : Forall (avoids (eq src)) oo).
-    { eapply Forall_impl; [|exact (open_dst_mod _ _ _ _ _ _ _ Eop)].
-      intros o Ho q E X. apply Hp. rewrite X. apply Ho. exact E. }
-    destruct (untouched_safe rel src (f_bytes f0) None oo s0 None Hhold I Hoo) as [P1 [P2 _]].
-    assert (Hsegs : forall src' d', In src' (i_srcs i) -> dsel_of i src' = Some d' ->
-                                    seg_avoids i false vs (eq src) src' d').
-    { intros src' d' Hin' Ed' s' ops' r' Ef.
-      eapply Forall_impl; [|exact (file_ops_mod _ _ _ _ _ _ _ _ Ef)].
-      intros o Ho q E X. subst q. destruct (Ho src E) as [[_ Erm]|Ep]; [discriminate|].
-      rewrite Hsh in Ed'. inversion Ed'; subst d'. cbn [dsel_path] in Ep. apply Hp. congruence. }
-    destruct (loop_avoid i false (dsel_of i) vs (eq src) (holds src (f_bytes f0)) (holds_local _ _)
-                         (i_srcs i) _ _ _ _ Hsegs P2 El) as [Q1 [Q2 Q3]].
-    apply all_pref_app. split; [exact P1|].
-    rewrite (run_h_open_dst _ _ _ _ _ _ _ None Eop).
-    apply all_pref_app. split.
-    { eapply all_pref_impl; [|exact Q1]. intros s1 h1 X. apply holds_safe2. exact X. }
-    assert (Hend : holds src (f_bytes f0) (run ops (run oo s0))).
-    { apply (all_pref_end _ _ _ _ Q1). }
-    destruct e as [b|n].
-    + apply (untouched_safe rel src (f_bytes f0) None); [exact Hend|exact Q3|].
-      apply Forall_cons.
-      * intros q E X. cbn [modifies] in E. inversion E. apply Hp. congruence.
-      * destruct b; repeat constructor; intros q E; discriminate E.
-    + apply (untouched_safe rel src (f_bytes f0) None); [exact Hend|exact Q3|constructor].
-  - (* one destination per source, stdout, or test *)
-    destruct (loop i (eff_rm i) (dsel_of i) vs (i_srcs i) s0 false) as [ops e] eqn:El.
-    destruct (dst_of i src) as [p0|] eqn:Hd.
-    + (* own destination p0 *)
-      assert (Ed0 : dsel_of i src = Some (DOwn p0)) by (apply dst_of_own; exact Hd).
-      assert (Hp : src <> p0) by (apply (Hw2 src src (DOwn p0) p0 Hin Hin Ed0); reflexivity).
-      assert (Hsegs : forall src' d', In src' (i_srcs i) -> src' <> src -> dsel_of i src' = Some d' ->
-                                      seg_avoids i (eff_rm i) vs (prot0 src (Some p0)) src' d').
-      { intros src' d' Hin' Hne' Ed' s' ops' r' Ef.
-        eapply Forall_impl; [|exact (file_ops_mod _ _ _ _ _ _ _ _ Ef)].
-        intros o Ho q E [X|X]; destruct (Ho q E) as [[Eo _]|Ep].
-        - subst o. cbn [modifies] in E. inversion E. apply Hne'. congruence.
-        - subst q. exact (Hw2 src src' d' src Hin Hin' Ed' Ep eq_refl).
-        - subst o. cbn [modifies] in E. inversion E; subst q. inversion X; subst p0.
-          exact (Hw2 src' src (DOwn src') src' Hin' Hin Ed0 eq_refl eq_refl).
-        - inversion X; subst q. destruct d' as [| |p|p]; cbn [dsel_path] in Ep; try discriminate.
-          + exact (not_concat_not_shared i src' p Ec Ed').
-          + inversion Ep; subst p.
-            apply (Hw3 src src' p0 Hin Hin' (fun Y => Hne' (eq_sym Y)) Hd).
-            apply dst_of_own. exact Ed'. }
-      pose proof (loop_own rel i (eff_rm i) (dsel_of i) vs src f0 p0 Hp Ed0 Hsound
-                           (i_srcs i) s0 false ops e Hnd Hsegs Hs El) as Q1.
+  intros rel i names s0 vs [Hnd [Hw2 [Hw3 [Hw4 Hw5]]]] src f0 Hin Hlook Hsound.
+  set (org := target s0 src).
+  assert (Horg : s0 org = Reg f0) by (unfold org; rewrite <- look_target; exact Hlook).
+  assert (Hhold : holds org (f_bytes f0) s0) by (exists f0; split; [exact Horg|reflexivity]).
+  (* org is no destination key, whatever the state *)
+  assert (Hnodst : forall b d p, In b names -> dsel_of i names b = Some d -> dsel_path d = Some p -> org <> p).
+  { intros b d p Hb Ed Ep. unfold org, target. destruct (s0 src) eqn:Es; try (apply (Hw2 src b d p Hin Hb Ed Ep)).
+    apply (proj2 (Hw5 src t Hin Es) b d p Hb Ed Ep). }
+  assert (Hslots : forall b d s' q, In b names -> dsel_of i names b = Some d -> lsub s0 s' -> dslots s' d q -> org <> q).
+  { intros b d s' q Hb Ed HL Hq. destruct d as [|c|p|p]; cbn [dslots] in Hq; try contradiction.
+    - subst q. apply (Hnodst b (DShared p) p Hb Ed eq_refl).
+    - assert (q = p) by (apply (dslots_plain s0 s' p q HL (Hw4 b (DOwn p) p Hb Ed eq_refl) Hq)). subst q.
+      apply (Hnodst b (DOwn p) p Hb Ed eq_refl). }
+  unfold fio_main.
+  destruct (dict_check i s0 vs) as [n|].
+  { apply nomod_tail_safe; [exact Hhold|exact I|repeat constructor]. }
+  destruct (is_concat i names) eqn:Ec.
+  - (* several sources into one destination: no source is ever removed *)
+    assert (Hd : dst_of i names src = None).
+    { unfold dst_of. destruct (concat_shared i names Ec) as [[p [_ Hsh]]|[_ Hsh]]; rewrite Hsh; reflexivity. }
+    rewrite Hd.
+    assert (Hsegs : forall dof, (forall b, dof b = dsel_of i names b) \/ (exists t, (forall b, dof b = Some (DShared t)) /\ org <> t) ->
+              forall src' d', In src' names -> dof src' = Some d' ->
+              forall s' ops r, lsub s0 s' -> file_ops i false s' src' d' (vs src') = (ops, r) -> Forall (avoids (eq org)) ops).
+    { intros dof Hdof src' d' Hin' Ed' s' ops r HL Ef.
+      apply (seg_avoid_from_mod _ _ _ _ _ _ _ _ (eq org) Ef); [intros X; discriminate X|].
+      intros q Hq X. subst q. destruct Hdof as [Hdof|[t [Hdof Ht]]].
+      - rewrite Hdof in Ed'. apply (Hslots src' d' s' org Hin' Ed' HL Hq). reflexivity.
+      - rewrite Hdof in Ed'. inversion Ed'; subst d'. cbn [dslots] in Hq. apply Ht. exact Hq. }
+    destruct (concat_shared i names Ec) as [[p [Eo Hsh]]|[Eo Hsh]]; rewrite Eo.
+    + assert (Hp : org <> p) by (apply (Hnodst src (DShared p) p Hin (Hsh src) eq_refl)).
+      assert (Hpl : is_lnk (s0 p) = false) by (apply (Hw4 src (DShared p) p Hin (Hsh src) eq_refl)).
+      destruct (ovw i).
+      2:{ apply nomod_tail_safe; [exact Hhold|exact I|repeat constructor]. }
+      destruct (open_dst true s0 (vs p) None p false) as [oo ot] eqn:Eop.
+      destruct (open_dst_mod _ _ _ _ _ _ _ _ Eop) as [Hoo0 Hot].
+      assert (Hoo : Forall (avoids (eq org)) oo).
+      { eapply Forall_impl; [|exact Hoo0]. intros o Ho q E X. apply Hp. rewrite X.
+        apply (in_slot_plain s0 p q Hpl). apply Ho. exact E. }
+      destruct (untouched_safe rel org (f_bytes f0) None oo s0 None Hhold I Hoo) as [P1 [P2 _]].
+      destruct ot as [t|].
+      2:{ apply all_pref_app. split; [exact P1|].
+          rewrite (run_h_open_dst _ _ _ _ _ _ _ _ None Eop).
+          apply nomod_tail_safe; [exact P2|exact I|repeat constructor]. }
+      assert (Et : t = p) by (apply (in_slot_plain s0 p t Hpl); apply Hot; reflexivity). subst t.
+      destruct (loop i false (fun _ => Some (DShared p)) vs names (run oo s0) false) as [ops e] eqn:El.
+      destruct (loop_untouched rel i false (fun _ => Some (DShared p)) vs s0 org (f_bytes f0) None names _ _ _ _
+                  (Hsegs _ (or_intror (ex_intro _ p (conj (fun _ => eq_refl) Hp)))) P2 (lsub_run _ _ _ (lsub_refl s0)) El) as [Q1 [Q2 Q3]].
+      apply all_pref_app. split; [exact P1|].
+      rewrite (run_h_open_dst _ _ _ _ _ _ _ _ None Eop).
       apply all_pref_app. split; [exact Q1|].
-      apply all_pref_exit. apply (all_pref_end _ _ _ _ Q1).
-    + (* no destination of its own: nothing modifies src *)
-      pose proof (segs_avoid_src i vs src Hw2 Hin Hd Ec) as Hsegs.
-      destruct (loop_avoid i (eff_rm i) (dsel_of i) vs (eq src) (holds src (f_bytes f0)) (holds_local _ _)
-                           (i_srcs i) _ _ _ _ Hsegs Hhold El) as [Q1 [Q2 Q3]].
-      assert (Q1' : all_pref (safe2 rel src (f_bytes f0) None) ops s0 None).
-      { eapply all_pref_impl; [|exact Q1]. intros s1 h1 X. apply holds_safe2. exact X. }
-      apply all_pref_app. split; [exact Q1'|].
-      apply all_pref_exit. apply (all_pref_end _ _ _ _ Q1').
+      destruct e as [b|n].
+      * apply (untouched_safe rel org (f_bytes f0) None); [exact Q2|exact Q3|].
+        apply Forall_cons.
+        -- intros q E X. cbn [modifies] in E. inversion E. apply Hp. congruence.
+        -- apply nomod_avoids. destruct (v_close_ok (vs p)); [apply exit_of_nomod|repeat constructor].
+      * apply (untouched_safe rel org (f_bytes f0) None); [exact Q2|exact Q3|constructor].
+    + destruct (loop i false (dsel_of i names) vs names s0 false) as [ops e] eqn:El.
+      destruct (loop_untouched rel i false (dsel_of i names) vs s0 org (f_bytes f0) None names _ _ _ _
+                  (Hsegs _ (or_introl (fun _ => eq_refl))) Hhold (lsub_refl s0) El) as [Q1 [Q2 Q3]].
+      assert (G : forall tl, Forall nomod tl -> all_pref (safe2 rel org (f_bytes f0) None) (ops ++ tl) s0 None).
+      { intros tl Htl. apply all_pref_app. split; [exact Q1|].
+        apply (untouched_safe rel org (f_bytes f0) None); [exact Q2|exact Q3|apply nomod_avoids; exact Htl]. }
+      destruct (eff_out i names); apply G; destruct e as [b|n]; try constructor;
+        destruct (v_close_ok (vs stdoutmark)); try apply exit_of_nomod; repeat constructor.
+  - (* one destination per source, stdout, or test *)
+    destruct (loop i (eff_rm i names) (dsel_of i names) vs names s0 false) as [ops e] eqn:El.
+    destruct (s0 src) as [|fsrc| |t] eqn:Es;
+      try (unfold look in Hlook; rewrite Es in Hlook; discriminate Hlook).
+    + (* the source is a regular file *)
+      assert (Eorg : org = src) by (unfold org, target; rewrite Es; reflexivity).
+      assert (Ef0 : fsrc = f0) by (unfold look in Hlook; rewrite Es in Hlook; inversion Hlook; reflexivity). subst fsrc.
+      destruct (dst_of i names src) as [p0|] eqn:Hd.
+      * (* own destination p0 *)
+        assert (Ed0 : dsel_of i names src = Some (DOwn p0)) by (apply dst_of_own; exact Hd).
+        assert (Hp : src <> p0) by (apply (Hw2 src src (DOwn p0) p0 Hin Hin Ed0); reflexivity).
+        assert (Hpl : is_lnk (s0 p0) = false) by (apply (Hw4 src (DOwn p0) p0 Hin Ed0 eq_refl)).
+        assert (Hsegs : forall src' d', In src' names -> src' <> src -> dsel_of i names src' = Some d' ->
+                  forall s' ops r, lsub s0 s' -> file_ops i (eff_rm i names) s' src' d' (vs src') = (ops, r) ->
+                                   Forall (avoids (prot0 src (Some p0))) ops).
+        { intros src' d' Hin' Hne' Ed' s' ops' r' HL Ef.
+          apply (seg_avoid_from_mod _ _ _ _ _ _ _ _ _ Ef).
+          - intros _ _ [X|X]; [exact (Hne' X)|]. inversion X; subst p0.
+            exact (Hw2 src' src (DOwn src') src' Hin' Hin Ed0 eq_refl eq_refl).
+          - intros q Hq [X|X].
+            + subst q. rewrite <- Eorg in Hq. apply (Hslots src' d' s' org Hin' Ed' HL Hq). reflexivity.
+            + inversion X; subst q. destruct d' as [|c|p|p]; cbn [dslots] in Hq; try contradiction.
+              * exact (not_concat_not_shared i names src' p Ec Ed').
+              * assert (p0 = p) by (apply (dslots_plain s0 s' p p0 HL (Hw4 src' (DOwn p) p Hin' Ed' eq_refl) Hq)). subst p.
+                apply (Hw3 src src' p0 Hin Hin' (fun Y => Hne' (eq_sym Y)) Hd).
+                apply dst_of_own. exact Ed'. }
+        rewrite Eorg.
+        pose proof (loop_own rel i (eff_rm i names) (dsel_of i names) vs s0 src f0 p0 Hp Ed0 Hpl Hsound
+                             names s0 false ops e Hnd Hsegs Es (lsub_refl s0) El) as Q1.
+        apply all_pref_app. split; [exact Q1|].
+        pose proof (all_pref_end _ _ _ _ Q1) as Hend.
+        destruct e as [[|]|n]; cbn [exit_of all_pref apply_op apply_h]; tauto.
+      * (* no destination of its own: nothing modifies src *)
+        assert (Hsegs : forall src' d', In src' names -> dsel_of i names src' = Some d' ->
+                  forall s' ops r, lsub s0 s' -> file_ops i (eff_rm i names) s' src' d' (vs src') = (ops, r) ->
+                                   Forall (avoids (eq org)) ops).
+        { intros src' d' Hin' Ed' s' ops' r' HL Ef.
+          apply (seg_avoid_from_mod _ _ _ _ _ _ _ _ _ Ef).
+          - intros Erm Est X. rewrite Eorg in X. subst src'.
+            destruct d' as [|c|p|p].
+            + rewrite (test_no_rm i names src Ed') in Erm. discriminate.
+            + destruct (stdout_no_rm i names src c Ed') as [Y|Y]; congruence.
+            + exact (not_concat_not_shared i names src p Ec Ed').
+            + unfold dst_of in Hd. rewrite Ed' in Hd. discriminate.
+          - intros q Hq X. subst q. apply (Hslots src' d' s' org Hin' Ed' HL Hq). reflexivity. }
+        destruct (loop_untouched rel i (eff_rm i names) (dsel_of i names) vs s0 org (f_bytes f0) None names _ _ _ _
+                    Hsegs Hhold (lsub_refl s0) El) as [Q1 [Q2 Q3]].
+        apply all_pref_app. split; [exact Q1|].
+        apply (untouched_safe rel org (f_bytes f0) None); [exact Q2|exact Q3|apply nomod_avoids; apply exit_of_nomod].
+    + (* the source is reached through a symbolic link: its data is under a key nothing modifies *)
+      assert (Eorg : org = t) by (unfold org, target; rewrite Es; reflexivity).
+      destruct (Hw5 src t Hin Es) as [Hnotsrc _].
+      assert (Hsegs : forall src' d', In src' names -> dsel_of i names src' = Some d' ->
+                forall s' ops r, lsub s0 s' -> file_ops i (eff_rm i names) s' src' d' (vs src') = (ops, r) ->
+                                 Forall (avoids (eq org)) ops).
+      { intros src' d' Hin' Ed' s' ops' r' HL Ef.
+        apply (seg_avoid_from_mod _ _ _ _ _ _ _ _ _ Ef).
+        - intros _ _ X. apply Hnotsrc. rewrite <- Eorg, X. exact Hin'.
+        - intros q Hq X. subst q. apply (Hslots src' d' s' org Hin' Ed' HL Hq). reflexivity. }
+      destruct (loop_untouched rel i (eff_rm i names) (dsel_of i names) vs s0 org (f_bytes f0) (dst_of i names src) names _ _ _ _
+                  Hsegs Hhold (lsub_refl s0) El) as [Q1 [Q2 Q3]].
+      apply all_pref_app. split; [exact Q1|].
+      apply (untouched_safe rel org (f_bytes f0) _); [exact Q2|exact Q3|apply nomod_avoids; apply exit_of_nomod].
 Qed.
 
 Lemma run_handler_ops : forall h s, run (handler_ops h) s = unlinked h s.
 Proof. intros [p|] s; reflexivity. Qed.
 
-Theorem crash_safe_thm : forall rel i s0 vs, wf i ->
-  forall src f0, In src (i_srcs i) -> s0 src = Reg f0 -> verdict_sound rel i (f_bytes f0) (vs src) ->
-  forall k, safe rel src (f_bytes f0) (dst_of i src) (run (firstn k (fio_ops i s0 vs)) s0).
+Lemma pre_names : forall i ls s src, In src (eff_srcs i ls s) -> pre i ls s = inr (eff_srcs i ls s).
+Proof. intros i ls s src H. unfold eff_srcs in *. destruct (pre i ls s); [contradiction H|reflexivity]. Qed.
+
+Theorem all_states_safe : forall rel i ls s0 vs, wf i (eff_srcs i ls s0) s0 ->
+  forall src f0, In src (eff_srcs i ls s0) -> look s0 src = Reg f0 -> verdict_sound rel i (f_bytes f0) (vs src) ->
+  all_pref (safe2 rel (target s0 src) (f_bytes f0) (dst_of i (eff_srcs i ls s0) src)) (fio_ops i ls s0 vs) s0 None.
 Proof.
-  intros rel i s0 vs Hwf src f0 Hin Hs Hsound k.
-  pose proof (all_states_safe rel i s0 vs Hwf src f0 Hin Hs Hsound) as H.
+  intros rel i ls s0 vs Hwf src f0 Hin Hl Hsound. unfold fio_ops. rewrite (pre_names i ls s0 src Hin).
+  apply all_states_safe_main; assumption.
+Qed.
+
+Theorem crash_safe_thm : forall rel i ls s0 vs, wf i (eff_srcs i ls s0) s0 ->
+  forall src f0, In src (eff_srcs i ls s0) -> look s0 src = Reg f0 -> verdict_sound rel i (f_bytes f0) (vs src) ->
+  forall k, safe rel (target s0 src) (f_bytes f0) (dst_of i (eff_srcs i ls s0) src) (run (firstn k (fio_ops i ls s0 vs)) s0).
+Proof.
+  intros rel i ls s0 vs Hwf src f0 Hin Hs Hsound k.
+  pose proof (all_states_safe rel i ls s0 vs Hwf src f0 Hin Hs Hsound) as H.
   apply (all_pref_firstn _ _ _ _ k) in H. apply H.
 Qed.
 
-Theorem sigint_safe_thm : forall rel i s0 vs, wf i ->
-  forall src f0, In src (i_srcs i) -> s0 src = Reg f0 -> verdict_sound rel i (f_bytes f0) (vs src) ->
-  forall k, safe rel src (f_bytes f0) (dst_of i src) (run (sigint_ops k (fio_ops i s0 vs)) s0).
+Theorem sigint_safe_thm : forall rel i ls s0 vs, wf i (eff_srcs i ls s0) s0 ->
+  forall src f0, In src (eff_srcs i ls s0) -> look s0 src = Reg f0 -> verdict_sound rel i (f_bytes f0) (vs src) ->
+  forall k, safe rel (target s0 src) (f_bytes f0) (dst_of i (eff_srcs i ls s0) src) (run (sigint_ops k (fio_ops i ls s0 vs)) s0).
 Proof.
-  intros rel i s0 vs Hwf src f0 Hin Hs Hsound k.
-  pose proof (all_states_safe rel i s0 vs Hwf src f0 Hin Hs Hsound) as H.
+  intros rel i ls s0 vs Hwf src f0 Hin Hs Hsound k.
+  pose proof (all_states_safe rel i ls s0 vs Hwf src f0 Hin Hs Hsound) as H.
   apply (all_pref_firstn _ _ _ _ k) in H. unfold sigint_ops. rewrite run_app, run_handler_ops. apply H.
 Qed.
 
 (* ------------------------------------------------------------------ no clobber *)
 
 Lemma file_ops_refused : forall i rm s src p v f ops r,
-  s p = Reg f -> ovw i = false ->
-  file_ops i rm s src (DOwn p) v = (ops, r) -> Forall (fun o => modifies o = None) ops.
+  look s p = Reg f -> ovw i = false ->
+  file_ops i rm s src (DOwn p) v = (ops, r) -> Forall nomod ops.
 Proof.
   intros i rm s src p v f ops r Hs Hovw H. unfold file_ops in H.
-  destruct (s src); try (inv_pair H; constructor).
+  destruct (src_gate i s src v); try (inv_pair H; constructor).
   destruct (codec i (DOwn p) v) as [chunks out].
-  assert (E : open_dst (ovw i) s (Some src) p true = ([], false)).
-  { unfold open_dst. destruct (path_eqb src p); [reflexivity|]. rewrite Hs, Hovw. reflexivity. }
-  rewrite E in H. inv_pair H. repeat constructor.
+  assert (E : open_dst (ovw i) s v (Some src) p (negb (is_stdin src)) = ([], None)).
+  { unfold open_dst. destruct (same_file s src p); [reflexivity|]. rewrite Hs, Hovw. reflexivity. }
+  rewrite E in H. inv_pair H. destruct (is_stdin src); repeat constructor.
 Qed.
 
-Theorem no_clobber_thm : forall i s0 vs p f,
+Theorem no_clobber_main : forall i names s0 vs p f,
   i_force i = false -> i_confirm i = false -> s0 p = Reg f ->
-  (~ In p (i_srcs i) \/ eff_rm i = false) ->
-  all_pref (fun s h => s p = Reg f /\ unlinked h s p = Reg f) (fio_ops i s0 vs) s0 None.
+  (~ In p names \/ eff_rm i names = false) ->
+  all_pref (fun s h => s p = Reg f /\ unlinked h s p = Reg f) (fio_main i names s0 vs) s0 None.
 Proof.
-  intros i s0 vs p f Hf Hc Hs Hsrc.
+  intros i names s0 vs p f Hf Hc Hs Hsrc.
   assert (Hovw : ovw i = false) by (unfold ovw; rewrite Hf, Hc; reflexivity).
   assert (Hloc : local_to (eq p) (fun s => s p = Reg f)).
   { intros s s' H H1. rewrite (H p eq_refl). exact H1. }
-  unfold fio_ops. destruct (is_concat i) eqn:Ec.
-  - destruct (i_out i); try (cbn [all_pref apply_op apply_h unlinked]; tauto).
-    rewrite Hovw. cbn [all_pref apply_op apply_h unlinked]. tauto.
-  - destruct (loop i (eff_rm i) (dsel_of i) vs (i_srcs i) s0 false) as [ops e] eqn:El.
-    assert (Hsegs : forall src' d', In src' (i_srcs i) -> dsel_of i src' = Some d' ->
-              forall s' ops' r', s' p = Reg f -> file_ops i (eff_rm i) s' src' d' (vs src') = (ops', r') ->
-                                Forall (avoids (eq p)) ops').
-    { intros src' d' Hin' Ed' s' ops' r' Hs' Ef.
-      destruct (match d' with DOwn q => path_eqb q p | _ => false end) eqn:Eq.
-      - destruct d' as [| |q|q]; try discriminate. apply path_eqb_eq in Eq. subst q.
-        eapply Forall_impl; [|exact (file_ops_refused _ _ _ _ _ _ _ _ _ Hs' Hovw Ef)].
-        intros o Ho q E. rewrite Ho in E. discriminate.
-      - eapply Forall_impl; [|exact (file_ops_mod _ _ _ _ _ _ _ _ Ef)].
-        intros o Ho q E X. subst q. destruct (Ho p E) as [[Eo Erm]|Ep].
-        + subst o. cbn [modifies] in E. inversion E; subst src'.
-          destruct Hsrc as [Hn|Hrm]; [contradiction|congruence].
-        + destruct d' as [| |q|q]; cbn [dsel_path] in Ep; try discriminate.
-          * exact (not_concat_not_shared i src' q Ec Ed').
-          * inversion Ep; subst q. rewrite path_eqb_refl in Eq. discriminate. }
-    destruct (loop_avoid_if i (eff_rm i) (dsel_of i) vs (eq p) (fun s => s p = Reg f) Hloc
-                            (i_srcs i) s0 false ops e Hsegs Hs El) as [Q1 _].
-    apply all_pref_app. split; [exact Q1|].
-    apply all_pref_exit. apply (all_pref_end _ _ _ _ Q1).
+  assert (Triv : forall n, all_pref (fun s h => s p = Reg f /\ unlinked h s p = Reg f) [OExit n] s0 None).
+  { intros n. cbn [all_pref apply_op apply_h unlinked]. tauto. }
+  assert (Tail : forall ops l, all_pref (fun s h => s p = Reg f /\ unlinked h s p = Reg f) ops s0 None ->
+                   h_unprot (eq p) (run_h ops None) -> Forall nomod l ->
+                   all_pref (fun s h => s p = Reg f /\ unlinked h s p = Reg f) (ops ++ l) s0 None).
+  { intros ops l Q1 Q3 Hl. apply all_pref_app. split; [exact Q1|].
+    pose proof (all_pref_end _ _ _ _ Q1) as [E1 _].
+    destruct (avoid_all_pref (eq p) (fun s => s p = Reg f) Hloc l _ _ E1 Q3 (nomod_avoids _ _ Hl)) as [X _]. exact X. }
+  unfold fio_main.
+  destruct (dict_check i s0 vs) as [n|]; [apply Triv|].
+  (* what one segment does while p is in place *)
+  assert (Hseg : forall rm dof, (rm = true -> rm = eff_rm i names) ->
+            (forall src' q, dof src' <> Some (DShared q)) ->
+            forall src' d', In src' names -> dof src' = Some d' ->
+            forall s' ops' r', s' p = Reg f -> lsub s0 s' -> file_ops i rm s' src' d' (vs src') = (ops', r') ->
+                               Forall (avoids (eq p)) ops').
+  { intros rm dof Hrm Hnsh src' d' Hin' Ed' s' ops' r' Hs' _ Ef.
+    assert (Hun : rm = true -> is_stdin src' = false -> ~ p = src').
+    { intros Erm _ X. subst src'. destruct Hsrc as [Hn|Hn]; [contradiction|rewrite (Hrm Erm) in Erm; congruence]. }
+    destruct d' as [|c|q|q].
+    - apply (seg_avoid_from_mod _ _ _ _ _ _ _ _ _ Ef Hun). intros q0 Hq. cbn [dslots] in Hq. contradiction.
+    - apply (seg_avoid_from_mod _ _ _ _ _ _ _ _ _ Ef Hun). intros q0 Hq. cbn [dslots] in Hq. contradiction.
+    - exfalso. exact (Hnsh src' q Ed').
+    - destruct (look s' q) as [|fq| |tq] eqn:El.
+      2:{ apply nomod_avoids. exact (file_ops_refused _ _ _ _ _ _ _ _ _ El Hovw Ef). }
+      all: apply (seg_avoid_from_mod _ _ _ _ _ _ _ _ _ Ef Hun);
+        intros q0 Hq X; subst q0; destruct Hq as [Hq|Hq];
+        [subst q; unfold look in El; rewrite Hs' in El; discriminate El
+        |unfold look in El; rewrite Hq in El; rewrite Hs' in El; discriminate El]. }
+  destruct (is_concat i names) eqn:Ec.
+  - destruct (concat_shared i names Ec) as [[q [Eo Hsh]]|[Eo Hsh]]; rewrite Eo.
+    + rewrite Hovw. apply Triv.
+    + destruct (loop i false (dsel_of i names) vs names s0 false) as [ops e] eqn:El.
+      assert (Hns : forall src' q, dsel_of i names src' <> Some (DShared q)) by (intros src' q; rewrite Hsh; discriminate).
+      destruct (loop_avoid_if i false (dsel_of i names) vs s0 (eq p) (fun s => s p = Reg f) Hloc
+                  names s0 false ops e (Hseg false _ (fun X => False_ind _ (Bool.diff_false_true X)) Hns) Hs (lsub_refl s0) El) as [Q1 [_ Q3]].
+      apply Tail; [exact Q1|exact Q3|].
+      destruct e as [b|n]; [|constructor].
+      destruct (v_close_ok (vs stdoutmark)); [apply exit_of_nomod|repeat constructor].
+  - destruct (loop i (eff_rm i names) (dsel_of i names) vs names s0 false) as [ops e] eqn:El.
+    destruct (loop_avoid_if i (eff_rm i names) (dsel_of i names) vs s0 (eq p) (fun s => s p = Reg f) Hloc
+                names s0 false ops e (Hseg _ _ (fun _ => eq_refl) (fun a q => not_concat_not_shared i names a q Ec)) Hs (lsub_refl s0) El) as [Q1 [_ Q3]].
+    apply Tail; [exact Q1|exact Q3|apply exit_of_nomod].
 Qed.
 
-(* ------------------------------------------------------------------ --rm is off whenever the output cannot stand for the source *)
-
-Ltac solve_nounlink :=
-  repeat first
-    [ apply Forall_app; split
-    | apply Forall_cons
-    | apply Forall_nil
-    | apply Forall_map_write; intros; reflexivity
-    | apply Forall_map_stdout; intros; reflexivity
-    | reflexivity ].
-
-Lemma open_dst_nounlink : forall ovw s osrc p m oo opened,
-  open_dst ovw s osrc p m = (oo, opened) -> Forall (fun o => is_unlink_src o = false) oo.
+Theorem no_clobber_thm : forall i ls s0 vs p f,
+  i_force i = false -> i_confirm i = false -> s0 p = Reg f ->
+  (~ In p (eff_srcs i ls s0) \/ eff_rm i (eff_srcs i ls s0) = false) ->
+  all_pref (fun s h => s p = Reg f /\ unlinked h s p = Reg f) (fio_ops i ls s0 vs) s0 None.
 Proof.
-  intros ovw s osrc p m oo opened H. unfold open_dst in H.
-  destruct (match osrc with Some sp => path_eqb sp p | None => false end); [inversion H; constructor|].
-  destruct (s p); [|destruct ovw|]; inversion H; subst; solve_nounlink.
+  intros i ls s0 vs p f Hf Hc Hs Hsrc. unfold fio_ops.
+  destruct (pre i ls s0) as [n|names] eqn:Ep.
+  - cbn [all_pref apply_op apply_h unlinked]. tauto.
+  - unfold eff_srcs in Hsrc. rewrite Ep in Hsrc. apply no_clobber_main; assumption.
 Qed.
 
-Lemma file_ops_nounlink : forall i s src d v ops r,
-  file_ops i false s src d v = (ops, r) -> Forall (fun o => is_unlink_src o = false) ops.
+(* ------------------------------------------------------------------ when is a source removed *)
+
+Definition unl (rm : bool) (src : path) (r : fres) (o : op) : Prop :=
+  is_unlink_src o = false \/ (o = OUnlinkSrc src /\ rm = true /\ is_stdin src = false /\ r = FOk).
+
+Lemma unl_notsrc : forall rm src r o, is_unlink_src o = false -> unl rm src r o.
+Proof. intros. left. assumption. Qed.
+
+Ltac unlfin := first [apply unl_notsrc; reflexivity].
+
+Lemma open_dst_nounlink : forall ovw s v osrc p m oo ot rm src r,
+  open_dst ovw s v osrc p m = (oo, ot) -> Forall (unl rm src r) oo.
 Proof.
-  intros i s src d v ops r H. unfold file_ops in H.
-  destruct (s src); try (inv_pair H; constructor).
+  intros ovw s v osrc p m oo ot rm src r H.
+  destruct (open_dst_spec _ _ _ _ _ _ _ _ H) as [u [c [E [Hu Hc]]]]. subst oo. apply Forall_app. split.
+  - destruct Hu; subst u; fsplit. unlfin.
+  - destruct Hc as [[Hc _]|[t [Hc _]]]; subst c; fsplit. unlfin.
+Qed.
+
+Lemma file_ops_unl : forall i rm s src d v ops r,
+  file_ops i rm s src d v = (ops, r) -> Forall (unl rm src r) ops.
+Proof.
+  intros i rm s src d v ops r H. unfold file_ops in H.
+  destruct (src_gate i s src v); try (inv_pair H; apply Forall_nil).
   destruct (codec i d v) as [chunks out].
-  destruct d as [| |p|p].
-  - destruct out; inv_pair H; cbn [writes tail_src andb]; solve_nounlink.
-  - destruct out; inv_pair H; cbn [writes tail_src andb]; solve_nounlink.
-  - destruct out; inv_pair H; cbn [writes tail_src andb]; solve_nounlink.
-  - destruct (open_dst (ovw i) s (Some src) p true) as [oo opened] eqn:Eo.
-    pose proof (open_dst_nounlink _ _ _ _ _ _ _ Eo) as Hoo.
-    destruct opened.
-    + destruct out; inv_pair H; cbn [tail_src andb]; solve_nounlink; try exact Hoo;
-        destruct (is_ret0 _ && v_close_ok v); solve_nounlink.
-    + inv_pair H. solve_nounlink. exact Hoo.
+  assert (Hrd : forall r0, Forall (unl rm src r0) (if is_stdin src then [] else [OOpenRead src])).
+  { intros r0. destruct (is_stdin src); fsplit. unlfin. }
+  assert (Htl : forall ok tl r', tail_src i rm src v ok = (tl, r') -> Forall (unl rm src r') tl).
+  { intros ok tl r' Ht. destruct (tail_src_cases _ _ _ _ _ _ _ Ht) as [[E [Er [_ [Erm Est]]]]|[Hn _]].
+    - subst tl. fsplit; try unlfin. right. repeat split; assumption.
+    - eapply Forall_impl; [|exact Hn]. intros o Ho. left. destruct o; cbn [modifies] in Ho; try discriminate Ho; reflexivity. }
+  destruct d as [|cl|p|p].
+  - destruct out as [| |n]; try (destruct (tail_src i rm src v _) as [tl r'] eqn:Ht; inv_pair H);
+      try inv_pair H; cbn [writes]; fsplit; try apply Hrd; try (eapply Htl; exact Ht); try unlfin.
+  - destruct out as [| |n]; try (destruct (tail_src i rm src v _) as [tl r'] eqn:Ht; inv_pair H);
+      try inv_pair H; cbn [writes]; fsplit; try apply Hrd; try (eapply Htl; exact Ht);
+      try (apply Forall_map_stdout; intros; unlfin); try unlfin.
+  - destruct out as [| |n]; try (destruct (tail_src i rm src v _) as [tl r'] eqn:Ht; inv_pair H);
+      try inv_pair H; cbn [writes]; fsplit; try apply Hrd; try (eapply Htl; exact Ht);
+      try (apply Forall_map_write; intros; unlfin); try unlfin.
+  - destruct (open_dst (ovw i) s v (Some src) p (negb (is_stdin src))) as [oo ot] eqn:Eo.
+    assert (Hoo : forall r0, Forall (unl rm src r0) oo) by (intros r0; exact (open_dst_nounlink _ _ _ _ _ _ _ _ rm src r0 Eo)).
+    destruct ot as [t|].
+    2:{ inv_pair H. fsplit; try apply Hrd; try apply Hoo. unlfin. }
+    destruct out as [| |n].
+    3:{ inv_pair H. fsplit; try apply Hrd; try apply Hoo; try unlfin.
+        - apply Forall_map_write. intros c. unlfin.
+        - destruct (v_art_unlink_ok v); fsplit; unlfin. }
+    + destruct (tail_src i rm src v (is_ret0 Ret0 && v_close_ok v)) as [tl r'] eqn:Htl'. inv_pair H.
+      fsplit; try apply Hrd; try apply Hoo; try (eapply Htl; exact Htl'); try unlfin.
+      * apply Forall_map_write. intros c. unlfin.
+      * destruct (is_stdin src); fsplit; unlfin.
+      * destruct (is_stdin src); fsplit; unlfin.
+      * destruct (is_ret0 Ret0 && v_close_ok v); [apply Forall_nil|].
+        destruct (v_art_unlink_ok v); fsplit. unlfin.
+    + destruct (tail_src i rm src v (is_ret0 Ret1 && v_close_ok v)) as [tl r'] eqn:Htl'. inv_pair H.
+      fsplit; try apply Hrd; try apply Hoo; try (eapply Htl; exact Htl'); try unlfin.
+      * apply Forall_map_write. intros c. unlfin.
+      * destruct (is_stdin src); fsplit; unlfin.
+      * destruct (is_stdin src); fsplit; unlfin.
+      * destruct (is_ret0 Ret1 && v_close_ok v); [apply Forall_nil|].
+        destruct (v_art_unlink_ok v); fsplit. unlfin.
 Qed.
 
-Lemma loop_nounlink : forall i dof vs srcs s err ops e,
-  loop i false dof vs srcs s err = (ops, e) -> Forall (fun o => is_unlink_src o = false) ops.
+Definition unl_in (rm : bool) (srcs : list path) (o : op) : Prop :=
+  is_unlink_src o = false \/ exists src, In src srcs /\ o = OUnlinkSrc src /\ rm = true /\ is_stdin src = false.
+
+Lemma loop_unl : forall i rm dof vs srcs s err ops e,
+  loop i rm dof vs srcs s err = (ops, e) -> Forall (unl_in rm srcs) ops.
 Proof.
-  intros i dof vs. induction srcs as [|src tl IH]; intros s err ops e H; cbn [loop] in H.
+  intros i rm dof vs. induction srcs as [|src tl IH]; intros s err ops e H; cbn [loop] in H.
   - inv_pair H. constructor.
-  - destruct (dof src) as [d|]; [|eapply IH; exact H].
-    destruct (file_ops i false s src d (vs src)) as [ops1 r] eqn:Ef.
-    pose proof (file_ops_nounlink _ _ _ _ _ _ _ Ef) as H1.
+  - assert (Up : forall l, Forall (unl_in rm tl) l -> Forall (unl_in rm (src :: tl)) l).
+    { intros l Hl. eapply Forall_impl; [|exact Hl]. intros o [Ho|[a [Ha Hb]]]; [left; exact Ho|].
+      right. exists a. split; [right; exact Ha|exact Hb]. }
+    destruct (dof src) as [d|]; [|apply Up; eapply IH; exact H].
+    destruct (file_ops i rm s src d (vs src)) as [ops1 r] eqn:Ef.
+    assert (H1 : Forall (unl_in rm (src :: tl)) ops1).
+    { eapply Forall_impl; [|exact (file_ops_unl _ _ _ _ _ _ _ _ Ef)]. intros o [Ho|[Ho1 [Ho2 [Ho3 _]]]]; [left; exact Ho|].
+      right. exists src. split; [left; reflexivity|repeat split; assumption]. }
     destruct r as [| |n].
-    + destruct (loop i false dof vs tl (run ops1 s) (err || is_fail FOk)) as [ops2 e2] eqn:El.
-      inv_pair H. apply Forall_app. split; [exact H1|eapply IH; exact El].
-    + destruct (loop i false dof vs tl (run ops1 s) (err || is_fail FFail)) as [ops2 e2] eqn:El.
-      inv_pair H. apply Forall_app. split; [exact H1|eapply IH; exact El].
+    + destruct (loop i rm dof vs tl (run ops1 s) (err || is_fail FOk)) as [ops2 e2] eqn:El.
+      inv_pair H. apply Forall_app. split; [exact H1|apply Up; eapply IH; exact El].
+    + destruct (loop i rm dof vs tl (run ops1 s) (err || is_fail FFail)) as [ops2 e2] eqn:El.
+      inv_pair H. apply Forall_app. split; [exact H1|apply Up; eapply IH; exact El].
     + inv_pair H. exact H1.
 Qed.
 
-Lemma exit_of_nounlink : forall e, Forall (fun o => is_unlink_src o = false) (exit_of e).
-Proof. intros [[|]|n]; cbn [exit_of]; solve_nounlink. Qed.
-
-Theorem removeSrc_disabled_thm : forall i s vs,
-  is_test i = true \/ out_stdout i = true \/ is_concat i = true ->
-  Forall (fun o => is_unlink_src o = false) (fio_ops i s vs).
+(* a source is removed only by --rm (the last of --rm / --keep), never in test mode, never when the output is
+   stdout or one file for several sources, and never when it is stdin *)
+Theorem src_removed_only_if_thm : forall i ls s vs q,
+  In (OUnlinkSrc q) (fio_ops i ls s vs) ->
+  In q (eff_srcs i ls s) /\ eff_rm i (eff_srcs i ls s) = true /\ is_concat i (eff_srcs i ls s) = false /\ is_stdin q = false.
 Proof.
-  intros i s vs H. unfold fio_ops. destruct (is_concat i) eqn:Ec.
-  - destruct (i_out i) as [| |p]; try solve_nounlink.
-    destruct (ovw i); [|solve_nounlink].
-    destruct (open_dst true s None p false) as [oo opened] eqn:Eo.
-    destruct opened; [|destruct (i_mode i); solve_nounlink].
-    destruct (loop i false (dsel_of i) vs (i_srcs i) (run oo s) false) as [ops e] eqn:El.
-    apply Forall_app. split; [exact (open_dst_nounlink _ _ _ _ _ _ _ Eo)|].
-    apply Forall_app. split; [exact (loop_nounlink _ _ _ _ _ _ _ _ El)|].
-    destruct e; [apply Forall_cons; [reflexivity|apply exit_of_nounlink]|constructor].
-  - assert (Erm : eff_rm i = false).
-    { unfold eff_rm. destruct H as [H|[H|H]]; try congruence; rewrite H; cbn [negb];
-        rewrite ?andb_false_r; reflexivity. }
-    rewrite Erm.
-    destruct (loop i false (dsel_of i) vs (i_srcs i) s false) as [ops e] eqn:El.
-    apply Forall_app. split; [exact (loop_nounlink _ _ _ _ _ _ _ _ El)|apply exit_of_nounlink].
+  intros i ls s vs q H. unfold fio_ops, eff_srcs in *.
+  destruct (pre i ls s) as [n|names]; [destruct H as [H|[]]; discriminate H|].
+  assert (G : forall l, Forall (fun o => is_unlink_src o = false) l -> ~ In (OUnlinkSrc q) l).
+  { intros l Hl X. rewrite Forall_forall in Hl. specialize (Hl _ X). discriminate Hl. }
+  assert (F : forall rm ops, Forall (unl_in rm names) ops -> In (OUnlinkSrc q) ops -> In q names /\ rm = true /\ is_stdin q = false).
+  { intros rm ops Hf X. rewrite Forall_forall in Hf. destruct (Hf _ X) as [Y|[a [Ha [Hb Hc]]]]; [discriminate Y|].
+    inversion Hb; subst a. split; [exact Ha|exact Hc]. }
+  unfold fio_main in H.
+  destruct (dict_check i s vs) as [n|]; [destruct H as [H|[]]; discriminate H|].
+  destruct (is_concat i names) eqn:Ec.
+  - exfalso. destruct (eff_out i names) as [| |p|d].
+    1,2,4: destruct (loop i false (dsel_of i names) vs names s false) as [ops e] eqn:El;
+      apply in_app_or in H; destruct H as [H|H];
+      [destruct (F false ops (loop_unl _ _ _ _ _ _ _ _ _ El) H) as [_ [X _]]; discriminate X
+      |destruct e as [b|n]; [destruct (v_close_ok (vs stdoutmark)); [destruct b|]|]; cbn in H; intuition discriminate].
+    destruct (ovw i); [|destruct H as [H|[]]; discriminate H].
+    destruct (open_dst true s (vs p) None p false) as [oo ot] eqn:Eo.
+    pose proof (open_dst_nounlink _ _ _ _ _ _ _ _ false q FOk Eo) as Hoo.
+    assert (Hoo' : ~ In (OUnlinkSrc q) oo).
+    { intros X. rewrite Forall_forall in Hoo. destruct (Hoo _ X) as [Y|[_ [Y _]]]; discriminate Y. }
+    destruct ot as [t|].
+    + destruct (loop i false (fun _ => Some (DShared t)) vs names (run oo s) false) as [ops e] eqn:El.
+      apply in_app_or in H. destruct H as [H|H]; [exact (Hoo' H)|].
+      apply in_app_or in H. destruct H as [H|H].
+      * destruct (F false ops (loop_unl _ _ _ _ _ _ _ _ _ El) H) as [_ [X _]]. discriminate X.
+      * destruct e as [b|n]; [destruct (v_close_ok (vs p)); [destruct b|]|]; cbn in H; intuition discriminate.
+    + apply in_app_or in H. destruct H as [H|H]; [exact (Hoo' H)|]. destruct H as [H|[]]. discriminate H.
+  - destruct (loop i (eff_rm i names) (dsel_of i names) vs names s false) as [ops e] eqn:El.
+    apply in_app_or in H. destruct H as [H|H].
+    + destruct (F _ ops (loop_unl _ _ _ _ _ _ _ _ _ El) H) as [A [B C]]. repeat split; assumption.
+    + exfalso. destruct e as [[|]|n]; cbn in H; intuition discriminate.
+Qed.
+
+Theorem removeSrc_disabled_thm : forall i ls s vs,
+  is_test i = true \/ out_stdout i (eff_srcs i ls s) = true \/ is_concat i (eff_srcs i ls s) = true \/
+  last_flag (i_rmk i) = false ->
+  Forall (fun o => is_unlink_src o = false) (fio_ops i ls s vs).
+Proof.
+  intros i ls s vs H. apply Forall_forall. intros o Ho.
+  destruct o; try reflexivity. exfalso.
+  destruct (src_removed_only_if_thm i ls s vs p Ho) as [_ [Erm [Ec _]]].
+  unfold eff_rm in Erm. destruct H as [H|[H|[H|H]]]; rewrite H in *; cbn [negb andb] in Erm;
+    rewrite ?andb_false_r in Erm; try discriminate.
 Qed.
 
 (* ------------------------------------------------------------------ the frame loop *)
@@ -882,6 +1253,7 @@ Proof.
     + destruct pass; cbn [fst]; eexists; (split; [reflexivity|discriminate]).
 Qed.
 
+
 (* ------------------------------------------------------------------ failure leaves no artefact; exit status *)
 
 Lemma run_not_mod : forall d ops s, Forall (fun o => modifies o <> Some d) ops -> run ops s d = s d.
@@ -890,116 +1262,790 @@ Proof.
   inversion H; subst. rewrite run_cons. rewrite IH by assumption. apply apply_op_other. assumption.
 Qed.
 
-Ltac solve_notmod Hne :=
-  repeat first
-    [ apply Forall_app; split
-    | apply Forall_cons
-    | apply Forall_nil
-    | (intros E; cbn [modifies] in E; first [discriminate E | inversion E; apply Hne; congruence]) ].
-
-Lemma file_ops_outcome : forall i rm s src d v ops r,
-  src <> d ->
-  file_ops i rm s src (DOwn d) v = (ops, r) ->
-  match r with
-  | FOk => exists chunks, codec i (DOwn d) v = (chunks, Ret0) /\ v_close_ok v = true /\
-                          run ops s d = Reg (mkFile (concat chunks) true)
-  | FFail => run ops s d = Absent \/ Forall (fun o => modifies o = None) ops
-  | FThrow n => snd (codec i (DOwn d) v) = Throw n
-  end.
-Proof.
-  intros i rm s src d v ops r Hne H. unfold file_ops in H.
-  destruct (s src); try (inv_pair H; right; constructor).
-  destruct (codec i (DOwn d) v) as [chunks out] eqn:Ec.
-  destruct (open_dst (ovw i) s (Some src) d true) as [oo opened] eqn:Eo.
-  destruct opened.
-  2:{ inv_pair H. right. rewrite (open_dst_not_opened _ _ _ _ _ _ Eo). repeat constructor. }
-  assert (E1 : run (OOpenRead src :: oo ++ OReg d :: map (OWrite d) chunks) s d
-               = Reg (mkFile ([] ++ concat chunks) false)).
-  { rewrite run_cons. cbn [apply_op]. rewrite run_app. rewrite run_cons. cbn [apply_op].
-    apply run_writes. apply (open_dst_opened _ _ _ _ _ _ _ Eo). }
-  assert (Hts : forall ok, Forall (fun o => modifies o <> Some d) (tail_src rm src ok)).
-  { intros ok. unfold tail_src. destruct (rm && ok); solve_notmod Hne. }
-  destruct out as [| |n].
-  3:{ inv_pair H. reflexivity. }
-  - cbn [is_ret0 andb] in H. destruct (v_close_ok v) eqn:Ecl; inv_pair H.
-    + exists chunks. split; [reflexivity|]. split; [reflexivity|].
-      rewrite !run_app. rewrite (run_not_mod d (tail_src rm src true)) by apply Hts.
-      revert E1. generalize (run (OOpenRead src :: oo ++ OReg d :: map (OWrite d) chunks) s). intros s1 E1.
-      unfold run. cbn [fold_left apply_op]. rewrite upd_same, E1. reflexivity.
-    + left. rewrite !run_app. rewrite (run_not_mod d (tail_src rm src false)) by apply Hts.
-      unfold run at 1. cbn [fold_left apply_op]. apply upd_same.
-  - cbn [is_ret0 andb] in H. inv_pair H.
-    left. rewrite !run_app. rewrite (run_not_mod d (tail_src rm src false)) by apply Hts.
-    unfold run at 1. cbn [fold_left apply_op]. apply upd_same.
-Qed.
+Lemma nomod_not_mod : forall d l, Forall nomod l -> Forall (fun o => modifies o <> Some d) l.
+Proof. intros d l H. eapply Forall_impl; [|exact H]. intros o Ho X. unfold nomod in Ho. congruence. Qed.
 
 Lemma exit_code_app_exit : forall ops n, exit_code (ops ++ [OExit n]) = Some n.
 Proof.
   induction ops as [|o tl IH]; intros n; cbn [app exit_code]; [reflexivity|]. rewrite IH. reflexivity.
 Qed.
 
-Lemma single_not_concat : forall i src, i_srcs i = [src] -> is_concat i = false.
+Lemma gate_skip_excl : forall i s src v, src_gate i s src v = GSkip -> i_excl i = true.
 Proof.
-  intros i src H. unfold is_concat. rewrite H. destruct (is_test i); cbn [negb andb]; [reflexivity|].
-  destruct (i_out i); reflexivity.
+  intros i s src v H. unfold src_gate in H. destruct (is_stdin src); [discriminate H|].
+  destruct (i_mode i); try (destruct (look s src); try discriminate H; destruct (v_open_ok v); discriminate H).
+  destruct (look s src); try discriminate H;
+    destruct (match dict_of i with Some d => same_file s src d | None => false end); try discriminate H;
+    destruct (i_excl i); try reflexivity; cbn [andb] in H; try discriminate H; destruct (v_open_ok v); discriminate H.
 Qed.
 
-(* one source with a destination file: exit status 0 comes with the complete output,
-   a non-zero status with no output file from this run *)
-Theorem failure_leaves_no_artefact_thm : forall i s vs src d,
-  i_srcs i = [src] -> dst_of i src = Some d -> src <> d ->
-  (forall n, snd (codec i (DOwn d) (vs src)) <> Throw n) ->
-  let ops := fio_ops i s vs in
-  (exit_code ops = Some 0 /\
-   exists chunks, codec i (DOwn d) (vs src) = (chunks, Ret0) /\ run ops s d = Reg (mkFile (concat chunks) true)) \/
-  (exit_code ops = Some 1 /\
-   (run ops s d = Absent \/ Forall (fun o => modifies o = None) ops)).
+(* the state of the destination and of the source after one segment with its own destination *)
+Lemma file_ops_outcome : forall i rm s src d v ops r,
+  src <> d -> is_lnk (s d) = false -> v_art_unlink_ok v = true ->
+  file_ops i rm s src (DOwn d) v = (ops, r) ->
+  match r with
+  | FOk => (Forall nomod ops /\ src_gate i s src v = GSkip) \/
+           (exists chunks, codec i (DOwn d) v = (chunks, Ret0) /\ v_close_ok v = true /\
+                           run ops s d = Reg (mkFile (concat chunks) true))
+  | FFail => run ops s d = Absent \/ Forall nomod ops \/
+             (exists chunks, codec i (DOwn d) v = (chunks, Ret0) /\
+                             run ops s d = Reg (mkFile (concat chunks) true) /\ run ops s src = s src)
+  | FThrow n => (snd (codec i (DOwn d) v) = Throw n /\ run ops s d = Absent) \/
+                (n = 1 /\ exists chunks, codec i (DOwn d) v = (chunks, Ret0) /\
+                                        run ops s d = Reg (mkFile (concat chunks) true) /\ run ops s src = s src)
+  end.
 Proof.
-  intros i s vs src d Hs Hd Hne Hnt ops. subst ops.
-  unfold fio_ops. rewrite (single_not_concat i src Hs). rewrite Hs. cbn [loop].
+  intros i rm s src d v ops r Hne Hpl Hart H. unfold file_ops in H.
+  destruct (src_gate i s src v) eqn:Eg.
+  1:{ inv_pair H. right. left. constructor. }
+  1:{ inv_pair H. left. split; [constructor|reflexivity]. }
+  destruct (codec i (DOwn d) v) as [chunks out] eqn:Ec.
+  destruct (open_dst (ovw i) s v (Some src) d (negb (is_stdin src))) as [oo ot] eqn:Eo.
+  pose proof (quiet_rd src) as Hrdq.
+  destruct ot as [t|].
+  2:{ inv_pair H. destruct (open_dst_not_opened _ _ _ _ _ _ _ Eo) as [X|X]; subst oo.
+      - right. left. destruct (is_stdin src); repeat constructor.
+      - left. rewrite run_app. rewrite (proj1 (quiet_run _ s None Hrdq)).
+        unfold run. cbn [app fold_left apply_op]. apply upd_same. }
+  assert (Et : t = d).
+  { destruct (open_dst_mod _ _ _ _ _ _ _ _ Eo) as [_ Hot]. apply (in_slot_plain s d t Hpl). apply Hot. reflexivity. }
+  subst t.
+  set (pre := (if is_stdin src then [] else [OOpenRead src]) ++ oo ++ OReg d :: map (OWrite d) chunks) in *.
+  assert (E1 : run pre s d = Reg (mkFile (concat chunks) false)).
+  { unfold pre. rewrite run_app. rewrite (proj1 (quiet_run _ s None Hrdq)). rewrite run_app. rewrite run_cons. cbn [apply_op].
+    apply (run_writes d chunks _ [] false). apply (open_dst_opened _ _ _ _ _ _ _ _ _ Eo). }
+  assert (Epre_src : run pre s src = s src).
+  { apply run_not_mod. unfold pre. destruct (open_dst_mod _ _ _ _ _ _ _ _ Eo) as [Hoo _].
+    fsplit; try (intros X; cbn [modifies] in X; first [discriminate X | inversion X; apply Hne; congruence]).
+    - destruct (is_stdin src); fsplit. intros X; discriminate X.
+    - eapply Forall_impl; [|exact Hoo]. intros o Ho X. apply Hne. apply (in_slot_plain s d src Hpl). apply Ho. exact X.
+    - apply Forall_map_write. intros c X. cbn [modifies] in X. inversion X. apply Hne. congruence. }
+  destruct out as [| |n].
+  3:{ inv_pair H. left. split; [reflexivity|]. unfold throw_ops. rewrite Hart. rewrite run_app.
+      unfold run at 1. cbn [app fold_left apply_op]. apply upd_same. }
+  - (* codec success *)
+    destruct (tail_src i rm src v (is_ret0 Ret0 && v_close_ok v)) as [tl r'] eqn:Etl. inv_pair H.
+    assert (Hq1 : Forall quiet (if is_stdin src then [] else [OSetStat d])) by (destruct (is_stdin src); repeat constructor; discriminate).
+    assert (Hq2 : Forall quiet (if is_stdin src then [] else [OUtime d])) by (destruct (is_stdin src); repeat constructor; discriminate).
+    assert (Body : forall (s1 : fs) art tl0,
+              s1 d = Reg (mkFile (concat chunks) false) ->
+              Forall (fun o => modifies o <> Some d) tl0 ->
+              run (OClr :: (if is_stdin src then [] else [OSetStat d]) ++ OClose d :: (if is_stdin src then [] else [OUtime d]) ++ art ++ tl0) s1 d
+              = run art (upd s1 d (Reg (mkFile (concat chunks) true))) d).
+    { intros s1 art tl0 Hs1 Htl0. rewrite run_cons. cbn [apply_op]. rewrite run_app.
+      rewrite (proj1 (quiet_run _ s1 None Hq1)). rewrite run_cons. cbn [apply_op]. rewrite Hs1. cbn [close_node f_bytes].
+      rewrite run_app. rewrite (proj1 (quiet_run _ _ None Hq2)). rewrite run_app. apply run_not_mod. exact Htl0. }
+    assert (BodySrc : forall (s1 : fs) art tl0,
+              Forall (fun o => modifies o <> Some src) art -> Forall (fun o => modifies o <> Some src) tl0 ->
+              run (OClr :: (if is_stdin src then [] else [OSetStat d]) ++ OClose d :: (if is_stdin src then [] else [OUtime d]) ++ art ++ tl0) s1 src
+              = s1 src).
+    { intros s1 art tl0 Ha Ht0. apply run_not_mod. fsplit; try assumption;
+        try (intros X; cbn [modifies] in X; first [discriminate X | inversion X; apply Hne; congruence]).
+      - destruct (is_stdin src); fsplit. intros X; discriminate X.
+      - destruct (is_stdin src); fsplit. intros X; discriminate X. }
+    destruct (tail_src_cases _ _ _ _ _ _ _ Etl) as [[T1 [T2 [T3 [T4 T5]]]]|[Hn [Hok Hh]]].
+    + subst tl r. right. exists chunks. split; [reflexivity|]. cbn [is_ret0 andb] in T3. split; [exact T3|].
+      rewrite run_app. cbn [is_ret0 andb]. rewrite T3. rewrite (Body _ [] _ E1).
+      * unfold run. cbn [fold_left]. apply upd_same.
+      * fsplit; intros X; cbn [modifies] in X; try discriminate X. inversion X. apply Hne. congruence.
+    + assert (Hnd : Forall (fun o => modifies o <> Some d) tl) by (apply nomod_not_mod; exact Hn).
+      assert (Hns : Forall (fun o => modifies o <> Some src) tl) by (apply nomod_not_mod; exact Hn).
+      cbn [is_ret0 andb] in *. destruct (v_close_ok v) eqn:Ecl.
+      * (* closed fine: the destination is complete whatever happens to the source afterwards *)
+        assert (Sd : run (pre ++ OClr :: (if is_stdin src then [] else [OSetStat d]) ++ OClose d :: (if is_stdin src then [] else [OUtime d]) ++ [] ++ tl) s d
+                     = Reg (mkFile (concat chunks) true)).
+        { rewrite run_app. rewrite (Body _ [] _ E1 Hnd). unfold run. cbn [fold_left]. apply upd_same. }
+        assert (Ss : run (pre ++ OClr :: (if is_stdin src then [] else [OSetStat d]) ++ OClose d :: (if is_stdin src then [] else [OUtime d]) ++ [] ++ tl) s src
+                     = s src).
+        { rewrite run_app. rewrite (BodySrc _ [] _ (Forall_nil _) Hns). exact Epre_src. }
+        destruct r as [| |n].
+        -- right. exists chunks. split; [reflexivity|]. split; [reflexivity|exact Sd].
+        -- right. right. exists chunks. split; [reflexivity|]. split; [exact Sd|exact Ss].
+        -- right. split.
+           ++ unfold tail_src in Etl. destruct (i_mode i); destruct (rm && true && negb (is_stdin src));
+                try destruct (v_close_src_ok v); cbn [negb] in Etl; try destruct (v_rm_ok v); inversion Etl; reflexivity.
+           ++ exists chunks. split; [reflexivity|]. split; [exact Sd|exact Ss].
+      * (* fclose failed: the artefact is removed *)
+        assert (Sd : run (pre ++ OClr :: (if is_stdin src then [] else [OSetStat d]) ++ OClose d :: (if is_stdin src then [] else [OUtime d]) ++
+                          (if v_art_unlink_ok v then [OUnlinkDst d] else []) ++ tl) s d = Absent).
+        { rewrite run_app. rewrite (Body _ _ _ E1 Hnd). rewrite Hart. unfold run. cbn [fold_left apply_op]. apply upd_same. }
+        destruct r as [| |n].
+        -- specialize (Hok eq_refl). discriminate Hok.
+        -- left. exact Sd.
+        -- exfalso. unfold tail_src in Etl. destruct (i_mode i); destruct (rm && false && negb (is_stdin src)) eqn:X;
+             try (rewrite andb_false_r in X; cbn [andb] in X; discriminate X);
+             try destruct (v_close_src_ok v); cbn [negb] in Etl; inversion Etl.
+  - (* codec failure *)
+    destruct (tail_src i rm src v (is_ret0 Ret1 && v_close_ok v)) as [tl r'] eqn:Etl. inv_pair H.
+    assert (Hq1 : Forall quiet (if is_stdin src then [] else [OSetStat d])) by (destruct (is_stdin src); repeat constructor; discriminate).
+    assert (Hq2 : Forall quiet (if is_stdin src then [] else [OUtime d])) by (destruct (is_stdin src); repeat constructor; discriminate).
+    cbn [is_ret0 andb] in *.
+    destruct (tail_src_cases _ _ _ _ _ _ _ Etl) as [[T1 [T2 [T3 _]]]|[Hn [Hok Hh]]]; [discriminate T3|].
+    assert (Hnd : Forall (fun o => modifies o <> Some d) tl) by (apply nomod_not_mod; exact Hn).
+    assert (Sd : run (pre ++ OClr :: (if is_stdin src then [] else [OSetStat d]) ++ OClose d :: (if is_stdin src then [] else [OUtime d]) ++
+                      (if v_art_unlink_ok v then [OUnlinkDst d] else []) ++ tl) s d = Absent).
+    { rewrite run_app. rewrite run_cons. cbn [apply_op]. rewrite run_app.
+      rewrite (proj1 (quiet_run _ _ None Hq1)). rewrite run_cons. rewrite run_app. rewrite (proj1 (quiet_run _ _ None Hq2)).
+      rewrite run_app. rewrite (run_not_mod d tl) by exact Hnd. rewrite Hart. unfold run. cbn [fold_left apply_op]. apply upd_same. }
+    destruct r as [| |n].
+    + specialize (Hok eq_refl). discriminate Hok.
+    + left. exact Sd.
+    + exfalso. unfold tail_src in Etl. destruct (i_mode i); destruct (rm && false && negb (is_stdin src)) eqn:X;
+        try (rewrite andb_false_r in X; cbn [andb] in X; discriminate X);
+        try destruct (v_close_src_ok v); cbn [negb] in Etl; inversion Etl.
+Qed.
+
+Lemma one_not_concat : forall i src, is_concat i [src] = false.
+Proof. intros i src. unfold is_concat. cbn [one_name negb]. rewrite andb_false_r. reflexivity. Qed.
+
+Lemma dict_check_nonzero : forall i s vs n, dict_check i s vs = Some n -> n <> 0.
+Proof.
+  intros i s vs n H. unfold dict_check in H. destruct (dict_of i); [|discriminate H].
+  destruct (look s p); try (inversion H; discriminate). destruct (v_open_ok (vs p)); inversion H. discriminate.
+Qed.
+
+Lemma tail_src_throw : forall i rm src v ok tl n,
+  tail_src i rm src v ok = (tl, FThrow n) -> n = 1 /\ tl = [OCloseSrc src; OClr; OExit 1].
+Proof.
+  intros i rm src v ok tl n H. unfold tail_src in H.
+  destruct (i_mode i); destruct (rm && ok && negb (is_stdin src));
+    try destruct (v_close_src_ok v); cbn [negb] in H; try destruct (v_rm_ok v); destruct ok;
+    inversion H; subst; split; reflexivity.
+Qed.
+
+Lemma exit_code_app_exit2 : forall a b n, exit_code (a ++ b ++ [OExit n]) = Some n.
+Proof. intros. rewrite app_assoc. apply exit_code_app_exit. Qed.
+
+Lemma file_ops_throw_exit : forall i rm s src d v ops n,
+  file_ops i rm s src d v = (ops, FThrow n) -> exit_code ops = Some n.
+Proof.
+  intros i rm s src d v ops n H. unfold file_ops in H.
+  destruct (src_gate i s src v); try (inversion H; fail).
+  destruct (codec i d v) as [chunks out].
+  assert (T : forall ok tl (pre : list op), tail_src i rm src v ok = (tl, FThrow n) -> exit_code (pre ++ tl) = Some n).
+  { intros ok tl pre0 E. destruct (tail_src_throw _ _ _ _ _ _ _ E) as [E1 E2]. subst.
+    change [OCloseSrc src; OClr; OExit 1] with ([OCloseSrc src; OClr] ++ [OExit 1]). apply exit_code_app_exit2. }
+  destruct d as [|c|p|p].
+  1,2,3: destruct out as [| |m];
+    try (destruct (tail_src i rm src v _) as [tl r'] eqn:E; inversion H; subst; eapply T; exact E);
+    inversion H; subst; apply exit_code_app_exit.
+  destruct (open_dst (ovw i) s v (Some src) p (negb (is_stdin src))) as [oo [t|]]; [|inversion H].
+  destruct out as [| |m].
+  3:{ inversion H; subst. unfold throw_ops. destruct (v_art_unlink_ok v).
+      - change ([OUnlinkDst p] ++ [OExit n]) with ([OUnlinkDst p] ++ [OExit n]). apply exit_code_app_exit2.
+      - cbn [app]. apply exit_code_app_exit. }
+  all: destruct (tail_src i rm src v _) as [tl r'] eqn:E; inversion H; subst;
+    repeat rewrite app_comm_cons; repeat rewrite app_assoc; eapply T; exact E.
+Qed.
+
+(* one source with a destination file: exit status 0 comes with the complete output (or with a source that
+   --exclude-compressed skipped); a non-zero status with no output file from this run, except when the failure is
+   reported after the destination was completed (fclose / remove of the source failed): then the source is kept *)
+Theorem failure_leaves_no_artefact_thm : forall i ls s vs src d,
+  eff_srcs i ls s = [src] -> dst_of i [src] src = Some d -> src <> d -> is_lnk (s d) = false ->
+  v_art_unlink_ok (vs src) = true -> snd (codec i (DOwn d) (vs src)) <> Throw 0 ->
+  let ops := fio_ops i ls s vs in
+  (exit_code ops = Some 0 /\
+   ((exists chunks, codec i (DOwn d) (vs src) = (chunks, Ret0) /\ run ops s d = Reg (mkFile (concat chunks) true)) \/
+    (Forall nomod ops /\ i_excl i = true))) \/
+  (exists n, n <> 0 /\ exit_code ops = Some n /\
+     (run ops s d = Absent \/ Forall nomod ops \/
+      (exists chunks, codec i (DOwn d) (vs src) = (chunks, Ret0) /\
+                      run ops s d = Reg (mkFile (concat chunks) true) /\ run ops s src = s src))).
+Proof.
+  intros i ls s vs src d Hs Hd Hne Hpl Hart Hnt ops. subst ops.
+  unfold fio_ops. assert (Ep : pre i ls s = inr [src]).
+  { rewrite <- Hs. apply (pre_names i ls s src). rewrite Hs. left. reflexivity. }
+  rewrite Ep. unfold fio_main.
+  destruct (dict_check i s vs) as [n|] eqn:Ed.
+  { right. exists n. split; [exact (dict_check_nonzero _ _ _ _ Ed)|]. split; [reflexivity|]. right. left. repeat constructor. }
+  rewrite one_not_concat. cbn [loop].
   apply dst_of_own in Hd. rewrite Hd.
-  destruct (file_ops i (eff_rm i) s src (DOwn d) (vs src)) as [ops1 r] eqn:Ef.
-  pose proof (file_ops_outcome _ _ _ _ _ _ _ _ Hne Ef) as Ho.
+  destruct (file_ops i (eff_rm i [src]) s src (DOwn d) (vs src)) as [ops1 r] eqn:Ef.
+  pose proof (file_ops_outcome _ _ _ _ _ _ _ _ Hne Hpl Hart Ef) as Ho.
+  assert (RunExit : forall n q, run (ops1 ++ [OExit n]) s q = run ops1 s q).
+  { intros n q. rewrite run_app. reflexivity. }
   destruct r as [| |n].
   - left. cbn [is_fail orb exit_of]. rewrite app_nil_r. split; [apply exit_code_app_exit|].
-    destruct Ho as [chunks [H1 [H2 H3]]]. exists chunks. split; [exact H1|].
-    rewrite run_app. unfold run at 1. cbn [fold_left apply_op]. exact H3.
-  - right. cbn [is_fail orb exit_of]. rewrite app_nil_r. split; [apply exit_code_app_exit|].
-    destruct Ho as [H1|H1].
-    + left. rewrite run_app. unfold run at 1. cbn [fold_left apply_op]. exact H1.
-    + right. apply Forall_app. split; [exact H1|repeat constructor].
-  - exfalso. apply (Hnt n). exact Ho.
+    destruct Ho as [[H1 H2]|[chunks [H1 [H2 H3]]]].
+    + right. split; [|exact (gate_skip_excl _ _ _ _ H2)]. apply Forall_app. split; [exact H1|repeat constructor].
+    + left. exists chunks. split; [exact H1|]. rewrite RunExit. exact H3.
+  - right. exists 1. split; [discriminate|]. cbn [is_fail orb exit_of]. rewrite app_nil_r. split; [apply exit_code_app_exit|].
+    destruct Ho as [H1|[H1|[chunks [H1 [H2 H3]]]]].
+    + left. rewrite RunExit. exact H1.
+    + right. left. apply Forall_app. split; [exact H1|repeat constructor].
+    + right. right. exists chunks. split; [exact H1|]. rewrite !RunExit. split; assumption.
+  - (* exit(n) in the middle: the operation list ends with OExit n *)
+    right. exists n. rewrite app_nil_r.
+    assert (En : n <> 0).
+    { destruct Ho as [[H1 _]|[H1 _]]; [|subst n; discriminate]. intro X. subst n. apply Hnt. exact H1. }
+    split; [exact En|].
+    assert (Ex : exit_code ops1 = Some n) by (exact (file_ops_throw_exit _ _ _ _ _ _ _ _ Ef)).
+    split; [exact Ex|].
+    destruct Ho as [[_ H1]|[_ [chunks [H1 [H2 H3]]]]].
+    + left. exact H1.
+    + right. right. exists chunks. split; [exact H1|]. split; assumption.
 Qed.
 
-(* same file as source and destination: nothing is created, removed or written *)
-Theorem same_file_refused_thm : forall i rm s src v ops r,
-  file_ops i rm s src (DOwn src) v = (ops, r) ->
-  r = FFail /\ Forall (fun o => modifies o = None) ops.
+(* source and destination are the same file (also through a symbolic link): nothing is created, removed or written *)
+Theorem same_file_refused_thm : forall i rm s src dst v ops r,
+  same_file s src dst = true ->
+  file_ops i rm s src (DOwn dst) v = (ops, r) ->
+  Forall nomod ops /\ (r = FFail \/ (r = FOk /\ i_excl i = true)).
 Proof.
-  intros i rm s src v ops r H. unfold file_ops in H.
-  destruct (s src); try (inv_pair H; split; [reflexivity|constructor]).
-  destruct (codec i (DOwn src) v) as [chunks out].
-  unfold open_dst in H. rewrite path_eqb_refl in H. inv_pair H.
-  split; [reflexivity|repeat constructor].
+  intros i rm s src dst v ops r Hsame H. unfold file_ops in H.
+  destruct (src_gate i s src v) eqn:Eg.
+  - inv_pair H. split; [constructor|left; reflexivity].
+  - inv_pair H. split; [constructor|right; split; [reflexivity|exact (gate_skip_excl _ _ _ _ Eg)]].
+  - destruct (codec i (DOwn dst) v) as [chunks out].
+    unfold open_dst in H. rewrite Hsame in H. inv_pair H.
+    split; [destruct (is_stdin src); repeat constructor|left; reflexivity].
 Qed.
 
-(* ------------------------------------------------------------------ the hypotheses are satisfiable *)
+(* -f over a destination name that is a symbolic link to a regular file: the link is replaced, its target is not written *)
+Theorem overwrite_replaces_link_thm : forall s v osrc p q f m oo t,
+  s p = Lnk q -> s q = Reg f -> v_ovw_unlink_ok v = true ->
+  open_dst true s v osrc p m = (oo, Some t) ->
+  oo = [OUnlinkDst p; OCreat p m] /\ t = p.
+Proof.
+  intros s v osrc p q f m oo t Hp Hq Hu H. unfold open_dst in H.
+  destruct (match osrc with Some sp => same_file s sp p | None => false end); [inversion H|].
+  assert (El : look s p = Reg f) by (unfold look; rewrite Hp; exact Hq).
+  rewrite El, Hu in H.
+  destruct (creat_ops (run [OUnlinkDst p] s) v p m) as [c t'] eqn:Ec. inversion H; subst.
+  assert (T : target (run [OUnlinkDst p] s) p = p).
+  { unfold target, run. cbn [fold_left apply_op]. rewrite upd_same. reflexivity. }
+  destruct (creat_ops_spec _ _ _ _ _ _ Ec) as [[A B]|[A B]]; [discriminate B|].
+  rewrite T in A, B. inversion B; subst. split; reflexivity.
+Qed.
 
-Definition ex_inv : inv := mkInv Compress [[97]] OutDefault false true false.       (* zstd --rm a *)
+(* ------------------------------------------------------------------ test mode and stdout output never touch the file system *)
+
+Lemma file_ops_nomod : forall i s src d v ops r,
+  (forall q, ~ dslots s d q) -> file_ops i false s src d v = (ops, r) -> Forall nomod ops.
+Proof.
+  intros i s src d v ops r Hd Ef. eapply Forall_impl; [|exact (file_ops_mod _ _ _ _ _ _ _ _ Ef)].
+  intros o Ho. unfold nomod. destruct (modifies o) as [q|] eqn:E; [|reflexivity].
+  exfalso. destruct (Ho q E) as [[_ [X _]]|X]; [discriminate X|exact (Hd q X)].
+Qed.
+
+Lemma loop_nomod : forall i dof vs,
+  (forall src d, dof src = Some d -> d = DTest \/ exists c, d = DStdout c) ->
+  forall srcs s err ops e, loop i false dof vs srcs s err = (ops, e) -> Forall nomod ops.
+Proof.
+  intros i dof vs Hdof. induction srcs as [|src tl IH]; intros s err ops e H; cbn [loop] in H.
+  - inv_pair H. constructor.
+  - destruct (dof src) as [d|] eqn:Ed; [|eapply IH; exact H].
+    destruct (file_ops i false s src d (vs src)) as [ops1 r] eqn:Ef.
+    assert (H1 : Forall nomod ops1).
+    { apply (file_ops_nomod i s src d (vs src) ops1 r); [|exact Ef].
+      intros q X. destruct (Hdof src d Ed) as [E|[c E]]; subst d; exact X. }
+    destruct r as [| |n].
+    + destruct (loop i false dof vs tl (run ops1 s) (err || is_fail FOk)) as [ops2 e2] eqn:El.
+      inv_pair H. apply Forall_app. split; [exact H1|eapply IH; exact El].
+    + destruct (loop i false dof vs tl (run ops1 s) (err || is_fail FFail)) as [ops2 e2] eqn:El.
+      inv_pair H. apply Forall_app. split; [exact H1|eapply IH; exact El].
+    + inv_pair H. exact H1.
+Qed.
+
+(* -t, -c (and a lone stdin source without -o): whatever --rm, -f, the sources and the faults are, no file is
+   created, written, closed or removed *)
+Theorem test_and_stdout_modify_nothing_thm : forall i ls s vs,
+  is_test i = true \/ out_stdout i (eff_srcs i ls s) = true ->
+  Forall nomod (fio_ops i ls s vs).
+Proof.
+  intros i ls s vs H. unfold fio_ops, eff_srcs in *.
+  destruct (pre i ls s) as [n|names]; [repeat constructor|].
+  assert (Hd : forall src d, dsel_of i names src = Some d -> d = DTest \/ exists c, d = DStdout c).
+  { intros src d E. unfold dsel_of in E. unfold is_test, out_stdout in H.
+    destruct (i_mode i); try (inversion E; left; reflexivity);
+      destruct H as [H|H]; try discriminate H;
+      destruct (eff_out i names); try discriminate H; inversion E; right; eexists; reflexivity. }
+  assert (Erm : eff_rm i names = false).
+  { unfold eff_rm. destruct H as [H|H]; rewrite H; cbn [negb]; rewrite ?andb_false_r; reflexivity. }
+  unfold fio_main. destruct (dict_check i s vs); [repeat constructor|].
+  destruct (is_concat i names) eqn:Ec.
+  - destruct (concat_shared i names Ec) as [[p [Eo Hsh]]|[Eo Hsh]]; rewrite Eo.
+    + exfalso. destruct (Hd (@nil N) _ (Hsh [])) as [X|[c X]]; discriminate X.
+    + destruct (loop i false (dsel_of i names) vs names s false) as [ops e] eqn:El.
+      apply Forall_app. split; [exact (loop_nomod i _ vs Hd _ _ _ _ _ El)|].
+      destruct e as [b|n]; [|constructor]. destruct (v_close_ok (vs stdoutmark)); [apply exit_of_nomod|repeat constructor].
+  - rewrite Erm. destruct (loop i false (dsel_of i names) vs names s false) as [ops e] eqn:El.
+    apply Forall_app. split; [exact (loop_nomod i _ vs Hd _ _ _ _ _ El)|apply exit_of_nomod].
+Qed.
+
+(* a missing / non-regular / unreadable dictionary (-D, --patch-from): the run ends with a non-zero status before any
+   source or destination is touched *)
+Theorem dict_failure_touches_nothing_thm : forall i ls s vs names n,
+  pre i ls s = inr names -> dict_check i s vs = Some n ->
+  fio_ops i ls s vs = [OExit n] /\ n <> 0.
+Proof.
+  intros i ls s vs names n Hp Hd. unfold fio_ops. rewrite Hp. unfold fio_main. rewrite Hd.
+  split; [reflexivity|exact (dict_check_nonzero _ _ _ _ Hd)].
+Qed.
+
+Lemma dict_check_cases : forall i s vs d,
+  dict_of i = Some d ->
+  (look s d = Absent -> dict_check i s vs = Some 31) /\
+  (look s d = Dir -> dict_check i s vs = Some 32) /\
+  (forall f, look s d = Reg f -> v_open_ok (vs d) = false -> dict_check i s vs = Some 33).
+Proof.
+  intros i s vs d H. unfold dict_check. rewrite H. repeat split; intros; try rewrite H0; try rewrite H1; reflexivity.
+Qed.
+
+(* ------------------------------------------------------------------ decompression: the file-system consequences of the frame loop *)
+
+Lemma frames_loop_ret0_iff : forall items,
+  snd (frames_loop false items true) = Ret0 <-> (items <> [] /\ forallb is_ok_item items = true).
+Proof. intros items. exact (proj1 (frames_loop_verdict_thm items)). Qed.
+
+Lemma frames_loop_ok_payload : forall pass items first,
+  forallb is_ok_item items = true -> fst (frames_loop pass items first) = ok_payload items.
+Proof.
+  intros pass items first H. destruct (frames_loop_output_thm pass items first) as [rest [E1 E2]].
+  rewrite E1. rewrite (E2 H). apply app_nil_r.
+Qed.
+
+(* zstd -d src (one source, own destination, no injected fault): the destination holds exactly the payload of the
+   frames iff the input is non-empty and every frame decodes (skippable frames count as frames with an empty
+   payload); then and only then is the source removed by --rm; in every other case (bad frame, truncated frame,
+   trailing garbage, empty input) the status is 1, no output of this run is left and the source is untouched --
+   with or without -f *)
+Theorem decompress_outcome_thm : forall i ls s vs src d f,
+  i_mode i = Decompress -> eff_srcs i ls s = [src] -> dst_of i [src] src = Some d -> src <> d ->
+  s src = Reg f -> is_stdin src = false -> no_fault (vs src) -> dict_check i s vs = None ->
+  (s d = Absent \/ (exists fd, s d = Reg fd) /\ ovw i = true) -> parent d = None ->
+  let ops := fio_ops i ls s vs in
+  let items := v_items (vs src) in
+  if negb (is_nil items) && forallb is_ok_item items then
+    exit_code ops = Some 0 /\ run ops s d = Reg (mkFile (concat (ok_payload items)) true) /\
+    run ops s src = (if eff_rm i [src] then Absent else s src)
+  else
+    exit_code ops = Some 1 /\ run ops s d = Absent /\ run ops s src = s src.
+Proof.
+  intros i ls s vs src d f Hm Hs Hd Hne Hsrc Hstd [F1 [F2 [F3 [F4 [F5 [F6 [F7 F8]]]]]]] Hdc Hdst Hpar ops items.
+  subst ops. unfold fio_ops.
+  assert (Ep : pre i ls s = inr [src]).
+  { rewrite <- Hs. apply (pre_names i ls s src). rewrite Hs. left. reflexivity. }
+  rewrite Ep. unfold fio_main. rewrite Hdc. rewrite one_not_concat. cbn [loop].
+  apply dst_of_own in Hd. rewrite Hd.
+  assert (Hpl : is_lnk (s d) = false).
+  { destruct Hdst as [X|[[fd X] _]]; rewrite X; reflexivity. }
+  assert (Hsf : same_file s src d = false).
+  { unfold same_file. assert (L1 : look s src = Reg f) by (unfold look; rewrite Hsrc; reflexivity). rewrite L1.
+    destruct (look s d) eqn:L2; try reflexivity;
+      apply path_eqb_neq; rewrite (not_lnk_target s d Hpl); unfold target; rewrite Hsrc; exact Hne. }
+  assert (Eg : src_gate i s src (vs src) = GGo).
+  { unfold src_gate. rewrite Hstd, Hm. unfold look. rewrite Hsrc. rewrite F2. reflexivity. }
+  assert (Ec : codec i (DOwn d) (vs src) = frames_loop false (v_items (vs src)) true).
+  { unfold codec. rewrite Hm. cbn [is_stdout]. rewrite andb_false_r. rewrite F1. reflexivity. }
+  assert (Cr : forall s1, s1 d = Absent ->
+                 creat_ops s1 (vs src) d (negb (is_stdin src)) = ([OCreat d (negb (is_stdin src))], Some d)).
+  { intros s1 X. unfold creat_ops, parent_ok. rewrite F4, Hpar. cbn [andb]. unfold look, target. rewrite X. reflexivity. }
+  assert (Eo : exists oo, open_dst (ovw i) s (vs src) (Some src) d (negb (is_stdin src)) = (oo, Some d) /\
+                          (forall s', run oo s' d = Reg (mkFile [] false)) /\ (forall s', run oo s' src = s' src)).
+  { unfold open_dst. rewrite Hsf. destruct Hdst as [X|[[fd X] Y]].
+    - assert (L : look s d = Absent) by (unfold look; rewrite X; reflexivity). rewrite L. rewrite (Cr s X).
+      exists [OCreat d (negb (is_stdin src))]. split; [reflexivity|]. split.
+      + intros s'. unfold run. cbn [fold_left apply_op]. apply upd_same.
+      + intros s'. unfold run. cbn [fold_left apply_op]. apply upd_other. exact Hne.
+    - assert (L : look s d = Reg fd) by (unfold look; rewrite X; reflexivity). rewrite L, Y, F3.
+      assert (S1 : run [OUnlinkDst d] s d = Absent) by (unfold run; cbn [fold_left apply_op]; apply upd_same).
+      rewrite (Cr _ S1). exists ([OUnlinkDst d] ++ [OCreat d (negb (is_stdin src))]). split; [reflexivity|]. split.
+      + intros s'. unfold run. cbn [app fold_left apply_op]. apply upd_same.
+      + intros s'. unfold run. cbn [app fold_left apply_op]. rewrite upd_other by exact Hne. apply upd_other. exact Hne. }
+  destruct Eo as [oo [Eo [Ood Oos]]].
+  unfold file_ops. rewrite Eg, Ec, Eo. rewrite Hstd. cbv iota. cbn [negb].
+  destruct (frames_loop false (v_items (vs src)) true) as [chunks out] eqn:Efl.
+  assert (Out : out = Ret0 <-> (v_items (vs src) <> [] /\ forallb is_ok_item (v_items (vs src)) = true)).
+  { pose proof (frames_loop_ret0_iff (v_items (vs src))) as X. rewrite Efl in X. exact X. }
+  assert (Out01 : out = Ret0 \/ out = Ret1).
+  { pose proof (proj2 (frames_loop_verdict_thm (v_items (vs src)))) as X. rewrite Efl in X. exact X. }
+  assert (Pre : run ([OOpenRead src] ++ oo ++ OReg d :: map (OWrite d) chunks) s d = Reg (mkFile (concat chunks) false)).
+  { cbn [app]. rewrite run_cons. cbn [apply_op]. rewrite run_app. rewrite run_cons. cbn [apply_op].
+    apply (run_writes d chunks _ [] false). apply Ood. }
+  assert (PreS : run ([OOpenRead src] ++ oo ++ OReg d :: map (OWrite d) chunks) s src = s src).
+  { cbn [app]. rewrite run_cons. cbn [apply_op]. rewrite run_app. rewrite run_cons. cbn [apply_op].
+    rewrite run_not_mod; [apply Oos|]. apply Forall_map_write. intros c X. cbn [modifies] in X. inversion X. apply Hne. congruence. }
+  assert (Hne' : d <> src) by (intro X; apply Hne; congruence).
+  unfold items. destruct Out01 as [E|E]; subst out.
+  - (* every frame decodes *)
+    destruct (proj1 Out eq_refl) as [Hne0 Hall]. rewrite Hall.
+    assert (Nn : is_nil (v_items (vs src)) = false) by (destruct (v_items (vs src)); [contradiction Hne0; reflexivity|reflexivity]).
+    rewrite Nn. cbn [negb andb].
+    assert (Ech : chunks = ok_payload (v_items (vs src))).
+    { pose proof (frames_loop_ok_payload false (v_items (vs src)) true Hall) as X. rewrite Efl in X. exact X. }
+    unfold tail_src. rewrite Hm. rewrite F7. cbn [negb is_ret0 andb]. rewrite F5. cbn [andb]. rewrite Hstd. cbn [negb].
+    rewrite andb_true_r.
+    destruct (eff_rm i [src]) eqn:Erm; cbn [andb]; [rewrite F8|]; cbn [is_fail orb exit_of]; rewrite app_nil_r.
+    + split; [apply exit_code_app_exit|].
+      rewrite !(run_app (_ ++ _) [OExit 0]). rewrite !(run_app ([OOpenRead src] ++ oo ++ OReg d :: map (OWrite d) chunks)).
+      revert Pre PreS. generalize (run ([OOpenRead src] ++ oo ++ OReg d :: map (OWrite d) chunks) s). intros s1 Pre PreS.
+      unfold run. cbn [app fold_left apply_op]. split.
+      * rewrite upd_other by exact Hne'. rewrite upd_same. rewrite Pre. cbn [close_node f_bytes]. rewrite Ech. reflexivity.
+      * apply upd_same.
+    + split; [apply exit_code_app_exit|].
+      rewrite !(run_app (_ ++ _) [OExit 0]). rewrite !(run_app ([OOpenRead src] ++ oo ++ OReg d :: map (OWrite d) chunks)).
+      revert Pre PreS. generalize (run ([OOpenRead src] ++ oo ++ OReg d :: map (OWrite d) chunks) s). intros s1 Pre PreS.
+      unfold run. cbn [app fold_left apply_op]. split.
+      * rewrite upd_same. rewrite Pre. cbn [close_node f_bytes]. rewrite Ech. reflexivity.
+      * rewrite upd_other by exact Hne. exact PreS.
+  - (* a frame fails, something follows the last frame, or the input is empty *)
+    assert (Nb : negb (is_nil (v_items (vs src))) && forallb is_ok_item (v_items (vs src)) = false).
+    { destruct (negb (is_nil (v_items (vs src))) && forallb is_ok_item (v_items (vs src))) eqn:X; [|reflexivity].
+      apply andb_true_iff in X. destruct X as [X1 X2].
+      assert (Y : Ret1 = Ret0); [|discriminate Y]. apply Out. split; [|exact X2].
+      intro Z. rewrite Z in X1. discriminate X1. }
+    rewrite Nb.
+    unfold tail_src. rewrite Hm. rewrite F7. cbn [negb is_ret0 andb]. rewrite F6. rewrite andb_false_r. cbn [andb].
+    cbn [is_fail orb exit_of]. rewrite app_nil_r.
+    split; [apply exit_code_app_exit|].
+    rewrite !(run_app (_ ++ _) [OExit 1]). rewrite !(run_app ([OOpenRead src] ++ oo ++ OReg d :: map (OWrite d) chunks)).
+    revert Pre PreS. generalize (run ([OOpenRead src] ++ oo ++ OReg d :: map (OWrite d) chunks) s). intros s1 Pre PreS.
+    unfold run. cbn [app fold_left apply_op]. split.
+    + apply upd_same.
+    + rewrite upd_other by exact Hne. rewrite upd_other by exact Hne. exact PreS.
+Qed.
+
+(* ------------------------------------------------------------------ several sources: each one's fate is decided by its own segment *)
+
+Lemma loop_err_false : forall i rm dof vs srcs s err ops,
+  loop i rm dof vs srcs s err = (ops, inl false) -> err = false.
+Proof.
+  intros i rm dof vs. induction srcs as [|src tl IH]; intros s err ops H; cbn [loop] in H.
+  - inversion H. reflexivity.
+  - destruct (dof src) as [d|].
+    + destruct (file_ops i rm s src d (vs src)) as [ops1 r].
+      destruct r as [| |n]; try discriminate H.
+      * destruct (loop i rm dof vs tl (run ops1 s) (err || is_fail FOk)) as [ops2 e2] eqn:El.
+        inversion H; subst. apply IH in El. apply orb_false_iff in El. apply El.
+      * destruct (loop i rm dof vs tl (run ops1 s) (err || is_fail FFail)) as [ops2 e2] eqn:El.
+        inversion H; subst. apply IH in El. apply orb_false_iff in El. destruct El as [_ X]. discriminate X.
+    + apply IH in H. discriminate H.
+Qed.
+
+Lemma true_local : forall prot : path -> Prop, local_to prot (fun _ => True).
+Proof. intros prot s s' _ _. exact I. Qed.
+
+(* where the segment of a tracked source sits in the run *)
+Lemma loop_track : forall i rm dof vs s0 src0 d0 (prot : path -> Prop),
+  dof src0 = Some d0 ->
+  forall srcs s err ops e,
+  NoDup srcs -> In src0 srcs ->
+  (forall src' d', In src' srcs -> src' <> src0 -> dof src' = Some d' ->
+     forall s' ops r, lsub s0 s' -> file_ops i rm s' src' d' (vs src') = (ops, r) -> Forall (avoids prot) ops) ->
+  lsub s0 s ->
+  loop i rm dof vs srcs s err = (ops, e) ->
+  ((exists n, e = inr n) /\ (forall q, prot q -> run ops s q = s q)) \/
+  (exists opsA ops0 opsB r0,
+     ops = opsA ++ ops0 ++ opsB /\
+     (forall q, prot q -> run opsA s q = s q) /\ lsub s0 (run opsA s) /\
+     file_ops i rm (run opsA s) src0 d0 (vs src0) = (ops0, r0) /\
+     (forall q, prot q -> run ops s q = run (opsA ++ ops0) s q) /\
+     (e = inl false -> r0 = FOk) /\ (forall b, e = inl b -> forall n, r0 <> FThrow n)).
+Proof.
+  intros i rm dof vs s0 src0 d0 prot Hd0.
+  induction srcs as [|src tl IH]; intros s err ops e Hnd Hin Hav HL H; [contradiction Hin|].
+  cbn [loop] in H. inversion Hnd as [|? ? Hnotin Hnd']; subst.
+  destruct (path_eq_dec src src0) as [E|E].
+  - (* the tracked source *)
+    subst src. rewrite Hd0 in H.
+    destruct (file_ops i rm s src0 d0 (vs src0)) as [ops1 r] eqn:Ef.
+    assert (Htl : forall src' d', In src' tl -> dof src' = Some d' ->
+              forall s' ops r, True -> lsub s0 s' -> file_ops i rm s' src' d' (vs src') = (ops, r) -> Forall (avoids prot) ops).
+    { intros a b Ha Hb s' o r' _ L Ef'. assert (Na : a <> src0) by (intro X; subst; contradiction).
+      exact (Hav a b (or_intror Ha) Na Hb s' o r' L Ef'). }
+    right. destruct r as [| |n].
+    + destruct (loop i rm dof vs tl (run ops1 s) (err || is_fail FOk)) as [ops2 e2] eqn:El. inv_pair H.
+      destruct (loop_avoid_if i rm dof vs s0 prot (fun _ => True) (true_local prot) tl _ _ _ _ Htl I (lsub_run _ _ _ HL) El) as [_ [B2 _]].
+      exists [], ops1, ops2, FOk. cbn [app]. repeat split; try assumption; try reflexivity.
+      * intros q Hq. rewrite run_app. apply B2. exact Hq.
+      * intros b _ n X. discriminate X.
+    + destruct (loop i rm dof vs tl (run ops1 s) (err || is_fail FFail)) as [ops2 e2] eqn:El. inv_pair H.
+      destruct (loop_avoid_if i rm dof vs s0 prot (fun _ => True) (true_local prot) tl _ _ _ _ Htl I (lsub_run _ _ _ HL) El) as [_ [B2 _]].
+      exists [], ops1, ops2, FFail. cbn [app]. repeat split; try assumption; try reflexivity.
+      * intros q Hq. rewrite run_app. apply B2. exact Hq.
+      * intros X. subst e. apply loop_err_false in El. apply orb_false_iff in El. destruct El as [_ Y]. discriminate Y.
+      * intros b _ n X. discriminate X.
+    + assert (Eo : ops = ops1 /\ e = inr n) by (inversion H; split; reflexivity). destruct Eo as [Eo Ee]. subst ops e.
+      exists [], ops1, [], (FThrow n). cbn [app]. rewrite app_nil_r.
+      repeat split; try assumption; try reflexivity; try (intros X; discriminate X). intros b X. discriminate X.
+  - (* another source comes first *)
+    destruct Hin as [Hin|Hin]; [contradiction|].
+    assert (Hav' : forall src' d', In src' tl -> src' <> src0 -> dof src' = Some d' ->
+              forall s' ops r, lsub s0 s' -> file_ops i rm s' src' d' (vs src') = (ops, r) -> Forall (avoids prot) ops)
+      by (intros a b Ha; apply Hav; right; exact Ha).
+    destruct (dof src) as [d|] eqn:Ed.
+    2:{ exact (IH s true ops e Hnd' Hin Hav' HL H). }
+    destruct (file_ops i rm s src d (vs src)) as [ops1 r] eqn:Ef.
+    pose proof (Hav src d (or_introl eq_refl) E Ed s ops1 r HL Ef) as Hav1.
+    destruct (avoid_all_pref prot (fun _ => True) (true_local prot) ops1 s None I I Hav1) as [_ [A2 _]].
+    assert (Step : forall b, loop i rm dof vs tl (run ops1 s) b = (fst (loop i rm dof vs tl (run ops1 s) b), snd (loop i rm dof vs tl (run ops1 s) b)))
+      by (intros b; destruct (loop i rm dof vs tl (run ops1 s) b); reflexivity).
+    assert (Go : forall b ops2 e2, loop i rm dof vs tl (run ops1 s) b = (ops2, e2) -> ops = ops1 ++ ops2 -> e = e2 ->
+              ((exists n, e = inr n) /\ (forall q, prot q -> run ops s q = s q)) \/
+              (exists opsA ops0 opsB r0,
+                 ops = opsA ++ ops0 ++ opsB /\
+                 (forall q, prot q -> run opsA s q = s q) /\ lsub s0 (run opsA s) /\
+                 file_ops i rm (run opsA s) src0 d0 (vs src0) = (ops0, r0) /\
+                 (forall q, prot q -> run ops s q = run (opsA ++ ops0) s q) /\
+                 (e = inl false -> r0 = FOk) /\ (forall b, e = inl b -> forall n, r0 <> FThrow n))).
+    { intros b ops2 e2 El Eops Ee. subst ops e.
+      destruct (IH (run ops1 s) b ops2 e2 Hnd' Hin Hav' (lsub_run _ _ _ HL) El) as [[Hn Hf]|[opsA [ops0 [opsB [r0 [X1 [X2 [X3 [X4 [X5 [X6 X7]]]]]]]]]]].
+      - left. split; [exact Hn|]. intros q Hq. rewrite run_app. rewrite Hf by exact Hq. apply A2. exact Hq.
+      - right. exists (ops1 ++ opsA), ops0, opsB, r0. subst ops2.
+        split; [rewrite <- app_assoc; reflexivity|].
+        split; [intros q Hq; rewrite run_app; rewrite X2 by exact Hq; apply A2; exact Hq|].
+        split; [rewrite run_app; exact X3|].
+        split; [rewrite run_app; exact X4|].
+        split; [|split; assumption].
+        intros q Hq. rewrite (run_app ops1). rewrite X5 by exact Hq. rewrite <- app_assoc. rewrite (run_app ops1). reflexivity. }
+    destruct r as [| |n].
+    + destruct (loop i rm dof vs tl (run ops1 s) (err || is_fail FOk)) as [ops2 e2] eqn:El. inv_pair H.
+      exact (Go _ _ _ El eq_refl eq_refl).
+    + destruct (loop i rm dof vs tl (run ops1 s) (err || is_fail FFail)) as [ops2 e2] eqn:El. inv_pair H.
+      exact (Go _ _ _ El eq_refl eq_refl).
+    + inv_pair H. left. split; [exists n; reflexivity|]. exact A2.
+Qed.
+
+(* a segment that does not report success does not remove its source *)
+Lemma file_ops_src_kept : forall i rm s src d v ops r,
+  src <> d -> is_lnk (s d) = false ->
+  file_ops i rm s src (DOwn d) v = (ops, r) -> r <> FOk -> run ops s src = s src.
+Proof.
+  intros i rm s src d v ops r Hne Hpl Ef Hr. apply run_not_mod.
+  pose proof (file_ops_mod _ _ _ _ _ _ _ _ Ef) as H1. pose proof (file_ops_unl _ _ _ _ _ _ _ _ Ef) as H2.
+  rewrite Forall_forall in *. intros o Ho X.
+  destruct (H1 o Ho src X) as [[Eo _]|Hs].
+  - destruct (H2 o Ho) as [Y|[_ [_ [_ Y]]]]; [subst o; discriminate Y|exact (Hr Y)].
+  - cbn [dslots] in Hs. apply Hne. apply (in_slot_plain s d src Hpl Hs).
+Qed.
+
+Lemma file_ops_src_state : forall i rm s src d v ops r,
+  src <> d -> is_lnk (s d) = false ->
+  file_ops i rm s src (DOwn d) v = (ops, r) -> run ops s src = s src \/ run ops s src = Absent.
+Proof.
+  intros i rm s src d v ops r Hne Hpl Ef.
+  pose proof (file_ops_mod _ _ _ _ _ _ _ _ Ef) as H1.
+  assert (G : forall l s1, Forall (seg_mod rm s src (DOwn d)) l -> run l s1 src = s1 src \/ run l s1 src = Absent).
+  { induction l as [|o tl IH]; intros s1 Hl; [left; reflexivity|].
+    inversion Hl as [|? ? Ho Ht]; subst. rewrite run_cons.
+    destruct (modifies o) as [q|] eqn:Em.
+    - destruct (path_eq_dec q src) as [Eq|Eq].
+      + subst q. destruct (Ho src Em) as [[Eo _]|Hs].
+        * subst o. cbn [apply_op].
+          assert (K : forall l2 s2, Forall (seg_mod rm s src (DOwn d)) l2 -> s2 src = Absent -> run l2 s2 src = Absent).
+          { induction l2 as [|o2 t2 IH2]; intros s2 Hl2 Hs2; [exact Hs2|].
+            inversion Hl2 as [|? ? Ho2 Ht2]; subst. rewrite run_cons. apply IH2; [exact Ht2|].
+            destruct (modifies o2) as [q2|] eqn:Em2.
+            - destruct (path_eq_dec q2 src) as [Eq2|Eq2].
+              + subst q2. destruct (Ho2 src Em2) as [[Eo2 _]|Hs'].
+                * subst o2. cbn [apply_op]. apply upd_same.
+                * exfalso. apply Hne. apply (in_slot_plain s d src Hpl Hs').
+              + rewrite apply_op_other; [exact Hs2|]. rewrite Em2. intro Y. inversion Y. contradiction.
+            - rewrite apply_op_other; [exact Hs2|]. rewrite Em2. discriminate. }
+          right. apply K; [exact Ht|apply upd_same].
+        * exfalso. apply Hne. apply (in_slot_plain s d src Hpl Hs).
+      + destruct (IH (apply_op s1 o) Ht) as [Y|Y]; [left|right; exact Y].
+        rewrite Y. apply apply_op_other. rewrite Em. intro Z. inversion Z. contradiction.
+    - destruct (IH (apply_op s1 o) Ht) as [Y|Y]; [left|right; exact Y].
+      rewrite Y. apply apply_op_other. rewrite Em. discriminate. }
+  apply G. exact H1.
+Qed.
+
+Lemma exit_code_app_r : forall a b n, exit_code b = Some n -> exit_code (a ++ b) = Some n.
+Proof.
+  induction a as [|o a IH]; intros b n H; [exact H|]. cbn [app exit_code]. rewrite (IH b n H). reflexivity.
+Qed.
+
+Lemma frames_loop_no_throw : forall pass items first n, snd (frames_loop pass items first) <> Throw n.
+Proof.
+  intros pass. induction items as [|x tl IH]; intros first n; cbn [frames_loop].
+  - destruct first; cbn [snd]; discriminate.
+  - destruct x as [cs|cs|r].
+    + destruct (frames_loop pass tl false) as [w o] eqn:E. cbn [snd]. specialize (IH false n). rewrite E in IH. exact IH.
+    + cbn [snd]. discriminate.
+    + destruct pass; cbn [snd]; discriminate.
+Qed.
+
+Lemma codec_throw0 : forall i d v, v_out v <> Throw 0 -> snd (codec i d v) <> Throw 0.
+Proof.
+  intros i d v Hv. unfold codec.
+  assert (R : snd (match i_mode i with
+                   | Compress => (v_chunks v, v_out v)
+                   | _ => frames_loop (i_force i && is_stdout d) (v_items v) true
+                   end) <> Throw 0).
+  { destruct (i_mode i); cbn [snd]; try exact Hv; apply frames_loop_no_throw. }
+  destruct d; try exact R; unfold cut_w; destruct (v_wfail v) as [n|]; try exact R;
+    destruct (Nat.ltb n _); try exact R; cbn [snd]; discriminate.
+Qed.
+
+Lemma file_ops_throw_code : forall i rm s src d v ops n,
+  file_ops i rm s src d v = (ops, FThrow n) -> snd (codec i d v) = Throw n \/ n = 1.
+Proof.
+  intros i rm s src d v ops n H. unfold file_ops in H.
+  destruct (src_gate i s src v); try (inversion H; fail).
+  destruct (codec i d v) as [chunks out]. cbn [snd].
+  assert (T : forall ok tl, tail_src i rm src v ok = (tl, FThrow n) -> n = 1)
+    by (intros ok tl E; exact (proj1 (tail_src_throw _ _ _ _ _ _ _ E))).
+  destruct d as [|c|p|p].
+  1,2,3: destruct out as [| |m];
+    try (destruct (tail_src i rm src v _) as [tl r'] eqn:E; inversion H; subst; right; eapply T; exact E);
+    inversion H; subst; left; reflexivity.
+  destruct (open_dst (ovw i) s v (Some src) p (negb (is_stdin src))) as [oo [t|]]; [|inversion H].
+  destruct out as [| |m].
+  3:{ inversion H; subst. left. reflexivity. }
+  all: destruct (tail_src i rm src v _) as [tl r'] eqn:E; inversion H; subst; right; eapply T; exact E.
+Qed.
+
+Lemma loop_throw_exit : forall i rm dof vs,
+  (forall p, v_out (vs p) <> Throw 0) ->
+  forall srcs s err ops n, loop i rm dof vs srcs s err = (ops, inr n) -> exit_code ops = Some n /\ n <> 0.
+Proof.
+  intros i rm dof vs Hv. induction srcs as [|src tl IH]; intros s err ops n H; cbn [loop] in H; [inversion H|].
+  destruct (dof src) as [d|]; [|exact (IH _ _ _ _ H)].
+  destruct (file_ops i rm s src d (vs src)) as [ops1 r] eqn:Ef.
+  destruct r as [| |m].
+  - destruct (loop i rm dof vs tl (run ops1 s) (err || is_fail FOk)) as [ops2 e2] eqn:El. inv_pair H.
+    destruct (IH _ _ _ _ El) as [A B]. split; [apply exit_code_app_r; exact A|exact B].
+  - destruct (loop i rm dof vs tl (run ops1 s) (err || is_fail FFail)) as [ops2 e2] eqn:El. inv_pair H.
+    destruct (IH _ _ _ _ El) as [A B]. split; [apply exit_code_app_r; exact A|exact B].
+  - inversion H; subst. split; [exact (file_ops_throw_exit _ _ _ _ _ _ _ _ Ef)|].
+    destruct (file_ops_throw_code _ _ _ _ _ _ _ _ Ef) as [X|X]; [|subst; discriminate].
+    intro Y. subst n. exact (codec_throw0 i d (vs src) (Hv src) X).
+Qed.
+
+(* several sources, each with its own destination (default names, -O): the final state of a source and of its
+   destination is decided by its own segment alone -- whatever happens to the sources before and after it *)
+Theorem per_source_outcome_main : forall i names s0 vs, wf i names s0 -> is_concat i names = false ->
+  dict_check i s0 vs = None -> (forall p, v_out (vs p) <> Throw 0) ->
+  forall src d f0, In src names -> dst_of i names src = Some d -> s0 src = Reg f0 -> v_art_unlink_ok (vs src) = true ->
+  let ops := fio_main i names s0 vs in
+  let fin := run ops s0 in
+  ( (* untouched: the tool exited before reaching it, or its processing was refused / skipped *)
+    (fin src = s0 src /\ fin d = s0 d) \/
+    (* destination complete; the source is kept or removed *)
+    (exists chunks, codec i (DOwn d) (vs src) = (chunks, Ret0) /\ fin d = Reg (mkFile (concat chunks) true) /\
+                    (fin src = s0 src \/ fin src = Absent)) \/
+    (* failed: nothing is left under the destination name, the source is kept *)
+    (fin d = Absent /\ fin src = s0 src) ) /\
+  (exit_code ops = Some 0 ->
+     (exists chunks, codec i (DOwn d) (vs src) = (chunks, Ret0) /\ fin d = Reg (mkFile (concat chunks) true)) \/
+     (i_excl i = true /\ fin src = s0 src /\ fin d = s0 d)).
+Proof.
+  intros i names s0 vs [Hnd [Hw2 [Hw3 [Hw4 Hw5]]]] Ec Hdc Hv0 src d f0 Hin Hd Hs Hart ops fin.
+  subst ops fin. unfold fio_main. rewrite Hdc, Ec.
+  destruct (loop i (eff_rm i names) (dsel_of i names) vs names s0 false) as [ops e] eqn:El.
+  assert (Ed0 : dsel_of i names src = Some (DOwn d)) by (apply dst_of_own; exact Hd).
+  assert (Hp : src <> d) by (apply (Hw2 src src (DOwn d) d Hin Hin Ed0); reflexivity).
+  assert (Hpl : is_lnk (s0 d) = false) by (apply (Hw4 src (DOwn d) d Hin Ed0 eq_refl)).
+  assert (Hsegs : forall src' d', In src' names -> src' <> src -> dsel_of i names src' = Some d' ->
+            forall s' ops r, lsub s0 s' -> file_ops i (eff_rm i names) s' src' d' (vs src') = (ops, r) ->
+                             Forall (avoids (prot0 src (Some d))) ops).
+  { intros src' d' Hin' Hne' Ed' s' ops' r' HL Ef.
+    apply (seg_avoid_from_mod _ _ _ _ _ _ _ _ _ Ef).
+    - intros _ _ [X|X]; [exact (Hne' X)|]. inversion X; subst d.
+      exact (Hw2 src' src (DOwn src') src' Hin' Hin Ed0 eq_refl eq_refl).
+    - intros q Hq [X|X].
+      + subst q. destruct d' as [|c|p|p]; cbn [dslots] in Hq; try contradiction.
+        * subst p. exact (Hw2 src src' (DShared src) src Hin Hin' Ed' eq_refl eq_refl).
+        * assert (src = p) by (apply (dslots_plain s0 s' p src HL (Hw4 src' (DOwn p) p Hin' Ed' eq_refl) Hq)). subst p.
+          exact (Hw2 src src' (DOwn src) src Hin Hin' Ed' eq_refl eq_refl).
+      + inversion X; subst q. destruct d' as [|c|p|p]; cbn [dslots] in Hq; try contradiction.
+        * exact (not_concat_not_shared i names src' p Ec Ed').
+        * assert (d = p) by (apply (dslots_plain s0 s' p d HL (Hw4 src' (DOwn p) p Hin' Ed' eq_refl) Hq)). subst p.
+          apply (Hw3 src src' d Hin Hin' (fun Y => Hne' (eq_sym Y)) Hd). apply dst_of_own. exact Ed'. }
+  assert (ExitRun : forall q, run (ops ++ exit_of e) s0 q = run ops s0 q).
+  { intros q. rewrite run_app. destruct e as [[|]|n]; reflexivity. }
+  rewrite !ExitRun.
+  assert (Exit0 : exit_code (ops ++ exit_of e) = Some 0 -> e = inl false).
+  { intros X. destruct e as [[|]|n]; try reflexivity.
+    - cbn [exit_of] in X. rewrite exit_code_app_exit in X. discriminate X.
+    - exfalso. cbn [exit_of] in X. rewrite app_nil_r in X.
+      destruct (loop_throw_exit i _ _ vs Hv0 _ _ _ _ _ El) as [A B]. rewrite A in X. inversion X. exact (B H0). }
+  destruct (loop_track i (eff_rm i names) (dsel_of i names) vs s0 src (DOwn d) (prot0 src (Some d)) Ed0
+              names s0 false ops e Hnd Hin Hsegs (lsub_refl s0) El)
+    as [[[n En] Hf]|[opsA [ops0 [opsB [r0 [X1 [X2 [X3 [X4 [X5 [X6 X7]]]]]]]]]]].
+  - (* never reached *)
+    split.
+    + left. split; apply Hf; [left; reflexivity|right; reflexivity].
+    + intros X. apply Exit0 in X. subst e. discriminate X.
+  - set (s1 := run opsA s0) in *.
+    assert (S1s : s1 src = s0 src) by (apply X2; left; reflexivity).
+    assert (S1d : s1 d = s0 d) by (apply X2; right; reflexivity).
+    assert (Hpl1 : is_lnk (s1 d) = false) by (rewrite S1d; exact Hpl).
+    assert (Fs : run ops s0 src = run ops0 s1 src) by (rewrite X5 by (left; reflexivity); rewrite run_app; reflexivity).
+    assert (Fd : run ops s0 d = run ops0 s1 d) by (rewrite X5 by (right; reflexivity); rewrite run_app; reflexivity).
+    rewrite Fs, Fd.
+    pose proof (file_ops_outcome _ _ _ _ _ _ _ _ Hp Hpl1 Hart X4) as Ho.
+    pose proof (file_ops_src_state _ _ _ _ _ _ _ _ Hp Hpl1 X4) as Hss.
+    assert (Kept : r0 <> FOk -> run ops0 s1 src = s0 src).
+    { intros Y. rewrite (file_ops_src_kept _ _ _ _ _ _ _ _ Hp Hpl1 X4 Y). exact S1s. }
+    assert (Nomod_d : Forall nomod ops0 -> run ops0 s1 src = s0 src /\ run ops0 s1 d = s0 d).
+    { intros Y. split; rewrite run_not_mod by (apply nomod_not_mod; exact Y); assumption. }
+    split.
+    + destruct r0 as [| |n].
+      * destruct Ho as [[H1 _]|[chunks [H1 [_ H3]]]].
+        -- left. apply Nomod_d. exact H1.
+        -- right. left. exists chunks. split; [exact H1|]. split; [exact H3|]. rewrite <- S1s. exact Hss.
+      * destruct Ho as [H1|[H1|[chunks [H1 [H2 H3]]]]].
+        -- right. right. split; [exact H1|]. apply Kept. discriminate.
+        -- left. apply Nomod_d. exact H1.
+        -- right. left. exists chunks. split; [exact H1|]. split; [exact H2|]. left. rewrite H3. exact S1s.
+      * destruct Ho as [[_ H1]|[_ [chunks [H1 [H2 H3]]]]].
+        -- right. right. split; [exact H1|]. apply Kept. discriminate.
+        -- right. left. exists chunks. split; [exact H1|]. split; [exact H2|]. left. rewrite H3. exact S1s.
+    + intros X. apply Exit0 in X. specialize (X6 X). subst r0.
+      destruct Ho as [[H1 H2]|[chunks [H1 [_ H3]]]].
+      * right. split; [exact (gate_skip_excl _ _ _ _ H2)|]. destruct (Nomod_d H1) as [A B]. split; assumption.
+      * left. exists chunks. split; assumption.
+Qed.
+
+Theorem per_source_outcome_thm : forall i ls s0 vs,
+  wf i (eff_srcs i ls s0) s0 -> is_concat i (eff_srcs i ls s0) = false ->
+  dict_check i s0 vs = None -> (forall p, v_out (vs p) <> Throw 0) ->
+  forall src d f0, In src (eff_srcs i ls s0) -> dst_of i (eff_srcs i ls s0) src = Some d -> s0 src = Reg f0 ->
+  v_art_unlink_ok (vs src) = true ->
+  let ops := fio_ops i ls s0 vs in
+  let fin := run ops s0 in
+  ( (fin src = s0 src /\ fin d = s0 d) \/
+    (exists chunks, codec i (DOwn d) (vs src) = (chunks, Ret0) /\ fin d = Reg (mkFile (concat chunks) true) /\
+                    (fin src = s0 src \/ fin src = Absent)) \/
+    (fin d = Absent /\ fin src = s0 src) ) /\
+  (exit_code ops = Some 0 ->
+     (exists chunks, codec i (DOwn d) (vs src) = (chunks, Ret0) /\ fin d = Reg (mkFile (concat chunks) true)) \/
+     (i_excl i = true /\ fin src = s0 src /\ fin d = s0 d)).
+Proof.
+  intros i ls s0 vs Hwf Hc Hdc Hv src d f0 Hin Hd Hs Hart. unfold fio_ops. rewrite (pre_names i ls s0 src Hin).
+  exact (per_source_outcome_main i (eff_srcs i ls s0) s0 vs Hwf Hc Hdc Hv src d f0 Hin Hd Hs Hart).
+Qed.
+
+(* ------------------------------------------------------------------ the hypotheses are satisfiable; worked examples *)
+
+Definition no_ls : path -> list path := fun _ => [].
+Definition ok_verdict (chunks : list data) : verdict :=
+  mkVerdict chunks Ret0 [] None true true true true true true true.
+
+Definition ex_inv : inv := mkInv Compress [[97]] OutDefault false [true] false false false None None.       (* zstd --rm a *)
 Definition ex_fs : fs := upd (fun _ => Absent) [97] (Reg (mkFile [1] true)).
-Definition ex_vs : path -> verdict := fun _ => mkVerdict [[2]] Ret0 [] true.
+Definition ex_vs : path -> verdict := fun _ => ok_verdict [[2]].
 
-Example ex_wf : wf ex_inv.
+Example ex_names : eff_srcs ex_inv no_ls ex_fs = [[97]].
+Proof. vm_compute. reflexivity. Qed.
+
+Example ex_wf : wf ex_inv (eff_srcs ex_inv no_ls ex_fs) ex_fs.
 Proof.
-  unfold wf, ex_inv. cbn [i_srcs]. split; [|split].
+  rewrite ex_names. unfold wf. split; [|split; [|split; [|split]]].
   - repeat constructor. intros [].
   - intros a b d p [Ha|[]] [Hb|[]] Hd Hp. subst a b. vm_compute in Hd. inversion Hd; subst d.
     cbn [dsel_path] in Hp. inversion Hp. discriminate.
   - intros a b p [Ha|[]] [Hb|[]] Hne. subst. contradiction.
+  - intros b d p [Hb|[]] Hd Hp. subst b. vm_compute in Hd. inversion Hd; subst d. cbn [dsel_path] in Hp. inversion Hp. reflexivity.
+  - intros a t [Ha|[]] Hl. subst a. vm_compute in Hl. discriminate Hl.
 Qed.
 
 Example ex_ops :
-  fio_ops ex_inv ex_fs ex_vs =
+  fio_ops ex_inv no_ls ex_fs ex_vs =
   [OOpenRead [97]; OCreat [97; 46; 122; 115; 116] true; OReg [97; 46; 122; 115; 116];
    OWrite [97; 46; 122; 115; 116] [2]; OClr; OSetStat [97; 46; 122; 115; 116];
    OClose [97; 46; 122; 115; 116]; OUtime [97; 46; 122; 115; 116]; OCloseSrc [97]; OClr;
@@ -1008,3 +2054,19 @@ Proof. vm_compute. reflexivity. Qed.
 
 Example ex_sound : verdict_sound (fun b b0 => b = [2] /\ b0 = [1]) ex_inv [1] (ex_vs [97]).
 Proof. intros d chunks H. vm_compute in H. inversion H; subst. split; reflexivity. Qed.
+
+(* the same run when the second fwrite fails (ENOSPC): EXM_THROW(70) removes the artefact, the source stays *)
+Example ex_write_fault :
+  fio_ops ex_inv no_ls ex_fs (fun _ => mkVerdict [[2]; [3]] Ret0 [] (Some 1%nat) true true true true true true true) =
+  [OOpenRead [97]; OCreat [97; 46; 122; 115; 116] true; OReg [97; 46; 122; 115; 116];
+   OWrite [97; 46; 122; 115; 116] [2]; OUnlinkDst [97; 46; 122; 115; 116]; OExit 70].
+Proof. vm_compute. reflexivity. Qed.
+
+(* zstd -f a, where a.zst is a symbolic link to the regular file p: the link is replaced, p is not written *)
+Example ex_link_dst :
+  fio_ops (mkInv Compress [[97]] OutDefault true [] false false false None None) no_ls
+          (upd (upd ex_fs [97; 46; 122; 115; 116] (Lnk [112])) [112] (Reg (mkFile [9] true))) ex_vs =
+  [OOpenRead [97]; OUnlinkDst [97; 46; 122; 115; 116]; OCreat [97; 46; 122; 115; 116] true; OReg [97; 46; 122; 115; 116];
+   OWrite [97; 46; 122; 115; 116] [2]; OClr; OSetStat [97; 46; 122; 115; 116];
+   OClose [97; 46; 122; 115; 116]; OUtime [97; 46; 122; 115; 116]; OCloseSrc [97]; OExit 0].
+Proof. vm_compute. reflexivity. Qed.
